@@ -18,7 +18,27 @@ metadata methods symbolically for every child position x every valuation of the 
   R8  the two renderer passes consume the metadata identically, and the child-index wrappers in base_ir delegate to the
       same-named renderable_* method
   R9  classes that remap child indices (renderable_idx_of_child) bind nothing (renderable_child_context re-maps the index)
-Does not decide: semantic equality of rendered and inlined IR; the typing of binders (C36).
+  R10 the names of lifted lets are fresh: dataflow from every binder the print pass emits back to the analysis-pass statement that
+      registers the name; the name must be <reserved prefix><counter>, the counter one object per render (not per frame / site),
+      strictly incremented between any two draws (CFG), never reset while names are handed out, and the prefix disjoint from
+      Env.get_uid() names and from the fixed variable names
+  R11 IR.free_vars / free_agg_vars / free_scan_vars evaluated on every path x (cached?, child-less?, uses_agg_capability()?) shape that
+      exists in the class table: a first evaluation yields the union over ALL children plus the agg_capability marker, a cache hit
+      the cached set; constructors pre-populate a cache only with a base case
+  R12 the free-variable equations are the adjoint of the child contexts (which parent component each child component comes from, and
+      which bindings extend it) - for the generic closures and for the classes that define their own contexts / free variables;
+      renderable_child_context carries every non-empty binding kind; _env_bind does not mutate the parent's context
+  R13 marking, look-up (analysis pass) and emission (print pass) classify value / agg / scan scope by the same test, use the matching
+      visited set / table / binder text (Let.head_str, AggLet.head_str), tables are plumbed scope-to-scope; lets are emitted in
+      completion order
+  R14 only nodes that are neither effectful nor streams are marked for lifting; each pass keys its tables by the node whose bind depth
+      it computed
+  R15 children that must be blocks are blocks (relational nodes, openers of an aggregation scope, If branches)
+Randomness needs no rule of its own: it is the ordinary variable `__rng_state` (a Ref child of the seeded node), pinned by R11/R12.
+Keying the tables by id() rather than structural equality is NOT a necessary condition (merging structurally equal nodes that have the
+same bind frame is sound) and is not demanded; keying by the WRONG node is (R14).
+Does not decide: semantic equality of rendered and inlined IR; the typing of binders (C36); hoisting of a (possibly failing) pure
+sub-term out of a loop body or Coalesce argument that is never evaluated (new_block is False there by design).
 """
 from __future__ import annotations
 
@@ -33,11 +53,16 @@ META = dict(
     category='other',
     text='Class-table consistency of the binder metadata the CSE renderer relies on (187 IR classes, MRO resolved): every metadata method is '
          'evaluated symbolically over all child positions x flag valuations by our own evaluator over the syntax tree, and the sibling '
-         'facts (bound_variables, head_str, bindings, context switches, agg_capability, the two renderer passes) are compared. This is a '
+         'facts (bound_variables, head_str, bindings, context switches, agg_capability, the two renderer passes) are compared. In addition the '
+         'obligations the lifting algorithm itself rests on are decided: freshness of the generated let names (dataflow + CFG over the analysis '
+         'pass with helpers inlined), the free-variable properties on every path and their adjointness to the child contexts, agreement of the '
+         'two passes on scope classification / tables / binder text, the not-effectful / not-a-stream guard, binder depths, blocks. This is a '
          'necessary-condition check, not a proof of rendering equivalence, hence "other".',
-    note='Trusted: CPython ast; engines/irclasses.py. Frozen exception tables (with reasons) in this module. Not decided: semantic equality of '
-         'rendered and inlined IR, the Scala parser\'s argument order.',
-    technique='static analysis: class-table construction with MRO resolution + symbolic evaluation of dict/set-valued metadata methods',
+    note='Trusted: CPython ast; engines/irclasses.py, engines/inline.py, engines/pyfacts.py (CFG). Frozen exception tables (with reasons) in this '
+         'module. Not decided: semantic equality of rendered and inlined IR, the Scala parser\'s argument order, strictness (a pure but failing '
+         'sub-term hoisted out of a never-executed loop body).',
+    technique='static analysis: class-table construction with MRO resolution + symbolic evaluation of dict/set-valued metadata methods + path '
+              'evaluation of small methods under all feasible valuations + def-use / CFG must-pass-through on the renderer passes',
     design_ref='DESIGN.md §3 C35',
 )
 
@@ -654,6 +679,17 @@ def _bind_depth_facts(fn: pf.FuncDef) -> Set[Tuple[str, str]]:
             if len(fv) != 1 or len(set(idx)) != 1 or set(gen) != set(fv):
                 raise AnalysisError(f'renderer bind_depth: unrecognised clause `{pf.nsrc(st.test)}`')
             facts.add((fv[0], idx[0]))
+            # how the clause combines the depths: bind_depth = max(bind_depth, *(<depth of every free variable>))
+            body = [x for x in st.body if not isinstance(x, ast.Pass)]
+            if not (len(body) == 1 and isinstance(body[0], ast.Assign) and pf.nsrc(body[0].targets[0]) == 'bind_depth' and isinstance(body[0].value, ast.Call)
+                    and isinstance(body[0].value.func, ast.Name) and not body[0].value.keywords):
+                raise AnalysisError(f'renderer bind_depth: unrecognised clause body `{pf.nsrc(st.body[0])[:80]}`')
+            call = body[0].value
+            plain = [pf.nsrc(a) for a in call.args if not isinstance(a, ast.Starred)]
+            starred = [a for a in call.args if isinstance(a, ast.Starred)]
+            if len(starred) != 1 or not isinstance(starred[0].value, (ast.GeneratorExp, ast.ListComp)) or starred[0].value.generators[0].ifs:
+                raise AnalysisError(f'renderer bind_depth: unrecognised clause body `{pf.nsrc(body[0])[:80]}`')
+            facts.add(('combine', f'{call.func.id}({", ".join(plain + ["*depths"])})'))
     if not facts:
         raise AnalysisError('renderer bind_depth: no clauses recognised')
     return facts
@@ -686,11 +722,11 @@ def check_renderer(ctx: Ctx, t: ic.Table) -> None:
     # the two bind_depth implementations consume the same (free variable set, context component) pairs
     fa = _bind_depth_facts(m.func('CSEAnalysisPass.StackFrame.bind_depth'))
     fp = _bind_depth_facts(m.func('CSEPrintPass.StackFrame.bind_depth'))
-    want_facts = {('base', 'self.min_binding_depth'), ('free_vars', '0'), ('free_agg_vars', '1'), ('free_scan_vars', '2')}
+    want_facts = {('base', 'self.min_binding_depth'), ('free_vars', '0'), ('free_agg_vars', '1'), ('free_scan_vars', '2'), ('combine', 'max(bind_depth, *depths)')}
     for name, facts in (('CSEAnalysisPass', fa), ('CSEPrintPass', fp)):
         cons = f'{m.rel}::{name}.StackFrame.bind_depth'
-        ctx.check(facts == want_facts, 'R8', cons, f'bind_depth looks up {sorted(facts)}; eval/agg/scan free variables must be looked up in context[0]/[1]/[2] '
-                  f'({sorted(want_facts)}): otherwise a let is placed above the binder of a variable it uses', m.path, m.func(f'{name}.StackFrame.bind_depth').lineno)
+        ctx.check(facts == want_facts, 'R8', cons, f'bind_depth computes {sorted(facts)}; it must start from min_binding_depth and take the maximum with the depth of every eval/agg/scan free '
+                  f'variable, looked up in context[0]/[1]/[2] ({sorted(want_facts)}): otherwise a let is placed above the binder of a variable it uses or lifted out of its block', m.path, m.func(f'{name}.StackFrame.bind_depth').lineno)
     # which context call each pass makes
     for name, fn, meth in (('CSEAnalysisPass', a_mk, 'child_context'), ('CSEPrintPass', p_mk, 'renderable_child_context')):
         calls = [c for c in pf.calls_in(fn) if isinstance(c.func, ast.Attribute) and c.func.attr in ('child_context', 'renderable_child_context')]
@@ -700,6 +736,89 @@ def check_renderer(ctx: Ctx, t: ic.Table) -> None:
         ctx.check(calls[0].func.attr == meth and len(calls[0].args) == 3 and pf.nsrc(calls[0].args[1]) == 'self.context', 'R8', cons,
                   f'calls `{pf.nsrc(calls[0])}`; this pass indexes children by {"child" if not meth.startswith("renderable") else "renderable"} index and must call {meth}(i, self.context, depth)',
                   m.path, calls[0].lineno)
+
+
+def check_depths(ctx: Ctx, t: ic.Table) -> None:
+    """R8: the depth recorded for the names a node binds for a child is the depth of the child's frame - the same value a new block
+    uses as its floor and the index under which the frame is found again (stack[depth] / bindings_stack[depth])."""
+    m = t.modules['renderer.py']
+    why = ('bind_depth() returns the recorded depth of the innermost binder a node depends on and the let is inserted above the frame with that index: a depth that is off '
+           'by one places the let above the binder (unbound variable) or one level too deep (a second occurrence outside is not shared but still referenced)')
+    # analysis pass
+    a_mk = m.func(f'{A_CLS}.StackFrame.make_child_frame')
+    dpar = a_mk.args.args[1].arg if len(a_mk.args.args) == 2 else None
+    ctx.need(dpar, f'{m.rel}::{A_CLS}.StackFrame.make_child_frame: unrecognised signature')
+    calls = [c for c in pf.calls_in(a_mk) if isinstance(c.func, ast.Attribute) and c.func.attr in ('child_context', 'renderable_child_context')]
+    ctx.need(len(calls) == 1 and len(calls[0].args) == 3, f'{m.rel}::{A_CLS}.StackFrame.make_child_frame: child-context call not found')
+    chain_vals = {v for _m, assigns in _chain(a_mk) for k, v in assigns.items() if k != 'child_scan_scope'}
+    got = pf.nsrc(pf.resolve_expr(a_mk, calls[0].args[2]) if isinstance(calls[0].args[2], ast.Name) and calls[0].args[2].id != dpar else calls[0].args[2])
+    cons = f'{m.rel}::{A_CLS}.StackFrame.make_child_frame::binder depth'
+    ctx.check(got == dpar and chain_vals == {dpar}, 'R8', cons, f'names bound for the child are recorded at depth `{got}` and new blocks / context switches use {sorted(chain_vals)}; '
+              f'both must be the child frame\'s own depth `{dpar}`: {why}', m.path, calls[0].lineno)
+    a_call = m.func(f'{A_CLS}.__call__')
+    mk_calls = [c for c in pf.calls_in(a_call) if isinstance(c.func, ast.Attribute) and c.func.attr == 'make_child_frame']
+    pushes = [c for c in pf.calls_in(a_call) if isinstance(c.func, ast.Attribute) and c.func.attr == 'append' and isinstance(c.func.value, ast.Name)
+              and len(c.args) == 1 and isinstance(c.args[0], ast.Name) and any(isinstance(d, ast.Call) and d is mk for d in pf.assignments(a_call).get(c.args[0].id, []) for mk in mk_calls)]
+    ctx.need(len(mk_calls) == 1 and len(mk_calls[0].args) == 1 and len(pushes) == 1, f'{m.rel}::{A_CLS}.__call__: make_child_frame / stack push not found')
+    stack_name = pushes[0].func.value.id  # type: ignore[attr-defined]
+    a0 = mk_calls[0].args[0]
+    arg = pf.nsrc(pf.resolve_expr(a_call, a0) if isinstance(a0, ast.Name) else a0)
+    ctx.check(arg == f'len({stack_name})', 'R8', f'{m.rel}::{A_CLS}.__call__::child frame depth', f'the child frame is created with depth `{arg}` but pushed at index '
+              f'len({stack_name}): the frame found under {stack_name}[bind_depth] is not the frame that bound the variable. {why}', m.path, mk_calls[0].lineno)
+    # print pass
+    p_mk = m.func(f'{P_CLS}.StackFrame.make_child_frame')
+    calls = [c for c in pf.calls_in(p_mk) if isinstance(c.func, ast.Attribute) and c.func.attr in ('child_context', 'renderable_child_context')]
+    ctx.need(len(calls) == 1 and len(calls[0].args) == 3, f'{m.rel}::{P_CLS}.StackFrame.make_child_frame: child-context call not found')
+    chain_vals = {v for _m, assigns in _chain(p_mk) for k, v in assigns.items() if k != 'child_scan_scope'}
+    darg = calls[0].args[2]
+    conds = ic.path_conditions(p_mk)
+    by_case: Dict[bool, Set[str]] = {True: set(), False: set()}
+    if isinstance(darg, ast.Name):
+        for st in pf.walk_shallow(p_mk):
+            if isinstance(st, ast.Assign) and len(st.targets) == 1 and isinstance(st.targets[0], ast.Name) and st.targets[0].id == darg.id:
+                val = st.value
+                if isinstance(val, ast.IfExp):
+                    cases = [(val.test, True, val.body), (val.test, False, val.orelse)]
+                else:
+                    lits = [x for tst, pol in conds.get(id(st), []) for x in ic.literals(tst, pol)]
+                    isi = [(e, pol) for e, pol in lits if isinstance(e, ast.Call) and pf.dotted(e.func) == 'isinstance' and 'BaseIR' in pf.nsrc(e.args[1])]
+                    if len(isi) != 1:
+                        raise AnalysisError(f'{m.rel}::{P_CLS}.StackFrame.make_child_frame: `{pf.nsrc(st)}` is not under an isinstance(child, ir.BaseIR) test')
+                    cases = [(isi[0][0], isi[0][1], val)]
+                for tst, pol, v in cases:
+                    if not (isinstance(tst, ast.Call) and pf.dotted(tst.func) == 'isinstance' and 'BaseIR' in pf.nsrc(tst.args[1])):
+                        raise AnalysisError(f'{m.rel}::{P_CLS}.StackFrame.make_child_frame: unrecognised depth case `{pf.nsrc(tst)}`')
+                    by_case[pol].add(pf.nsrc(v))
+    else:
+        raise AnalysisError(f'{m.rel}::{P_CLS}.StackFrame.make_child_frame: unrecognised depth argument `{pf.nsrc(darg)}`')
+    cons = f'{m.rel}::{P_CLS}.StackFrame.make_child_frame::binder depth'
+    ok = len(chain_vals) == 1 and by_case[True] == chain_vals and by_case[False] == {'self.depth'} and chain_vals == {'self.depth + 1'}
+    ctx.check(ok, 'R8', cons, f'an IR child gets depth {sorted(by_case[True])} (a non-IR renderable {sorted(by_case[False])}) while new blocks / context switches use '
+              f'{sorted(chain_vals)}; an IR child is one level below its parent (`self.depth + 1`, as in the analysis pass where it is the stack index) and a parenthesised '
+              f'group stays at `self.depth`: {why}', m.path, calls[0].lineno)
+    # lets are emitted in the order they were completed (post-order), so an earlier let never refers to a later one
+    cons = f'{m.rel}::{P_CLS}::let order'
+    problems = []
+    pcls = m.cls(P_CLS)
+    n_app = 0
+    for c in ast.walk(pcls):
+        if isinstance(c, ast.Call) and isinstance(c.func, ast.Attribute) and isinstance(c.func.value, ast.Attribute) and c.func.value.attr == 'let_bodies':
+            if c.func.attr == 'append':
+                n_app += 1
+            elif c.func.attr in ('insert', 'appendleft'):
+                problems.append(f'`{pf.nsrc(c)[:60]}` puts a completed let in front of the lets completed before it')
+            else:
+                raise AnalysisError(f'{cons}: unrecognised mutation `{pf.nsrc(c)[:60]}`')
+    add = m.func(f'{P_CLS}.StackFrame.add_lets')
+    loops = [st for st in pf.walk_shallow(add) if isinstance(st, ast.For)]
+    par = add.args.args[1].arg if len(add.args.args) >= 2 else None
+    fors = [st for st in loops if pf.nsrc(st.iter) == par or (isinstance(st.iter, ast.Call) and pf.dotted(st.iter.func) == 'reversed') or isinstance(st.iter, ast.Subscript)]
+    if n_app == 0 or len(fors) != 1:
+        raise AnalysisError(f'{cons}: unrecognised let emission')
+    if pf.nsrc(fors[0].iter) != par:
+        problems.append(f'add_lets emits the lets in the order `{pf.nsrc(fors[0].iter)}`')
+    ctx.check(not problems, 'R13', cons, (problems[0] if problems else '') + ': let bodies are completed in post-order, so a let may only refer to lets completed before it; emitted in another '
+              'order, `(Let b (.. (Ref a) ..) (Let a ..` references a before it is bound', m.path, add.lineno, detail={'appends': n_app})
 
 
 def check_child_context(ctx: Ctx, t: ic.Table) -> None:
@@ -814,9 +933,1882 @@ def check_raw_sites(ctx: Ctx, t: ic.Table) -> None:
     ctx.need(n_sites >= 5, f'only {n_sites} construction sites of raw-rendering classes found (expected the 6 listed in RAW_RENDERED)')
 
 
+# ---------------------------------------------------------------------------------------------------------------------------
+# R11 / R12: the free-variable properties (bind depths are computed from them)
+# ---------------------------------------------------------------------------------------------------------------------------
+FREE_PROPS = (('free_vars', '_free_vars', 'bindings'), ('free_agg_vars', '_free_agg_vars', 'agg_bindings'), ('free_scan_vars', '_free_scan_vars', 'scan_bindings'))
+FREE_FIELDS = {f: p for p, f, _ in FREE_PROPS}
+COMP_NAMES = ('eval', 'agg', 'scan')
+# classes that pre-populate a cache field in their constructor (base cases of the free-variable definition), with the reason
+PRESET_FREE = {
+    ('Ref', '_free_vars'): (frozenset({'A:name'}), 'base case: a reference mentions exactly its own name; Ref registers no children', None),
+    ('Recur', '_free_vars'): (frozenset({'A:name'}), 'the loop name',
+                              'Recur pre-populates _free_vars = {name}, so the free variables of its argument children never reach its ancestors. Not reported: '
+                              'a Recur is only legal in tail position of its TailLoop body, so two occurrences of one node containing it are always separated '
+                              'by If/Switch branches (new blocks) and no lifting decision reads the understated set'),
+}
+
+
+def _is_cap(e: ast.AST) -> bool:
+    return pf.dotted(e) in ('BaseIR.agg_capability', 'self.agg_capability', 'IR.agg_capability', 'cls.agg_capability') or (
+        isinstance(e, ast.Constant) and e.value == 'agg_capability')
+
+
+def _children_len_atom(e: ast.AST) -> Optional[bool]:
+    """Truth value of `e` on a node WITHOUT children, for the recognised spellings of "has (no) children"; None otherwise."""
+    def is_children(x: ast.AST) -> bool:
+        return pf.dotted(x) == 'self.children'
+
+    def is_len(x: ast.AST) -> bool:
+        return isinstance(x, ast.Call) and pf.dotted(x.func) == 'len' and len(x.args) == 1 and is_children(x.args[0])
+    if is_children(e) or is_len(e):
+        return False
+    if isinstance(e, ast.Compare) and len(e.ops) == 1 and is_len(e.left) and isinstance(e.comparators[0], ast.Constant) and isinstance(e.comparators[0].value, int):
+        # truth value on n == 0 children; each of these spellings has the opposite value for every n >= 1
+        return {(ast.Eq, 0): True, (ast.NotEq, 0): False, (ast.Gt, 0): False, (ast.GtE, 1): False, (ast.Lt, 1): True,
+                (ast.LtE, 0): True}.get((type(e.ops[0]), e.comparators[0].value))
+    return None
+
+
+class _FreeRun:
+    """Abstract run of one free_* property of class IR under a valuation of (N: cache field is None, L: no children,
+    U: uses_agg_capability()).  Set values are cells of tokens: OLD:<field> (the cached value), KIDS (union over all children of
+    vars_from_child), KIDS[...] (a recognisably partial union), CAP (the agg_capability marker)."""
+
+    def __init__(self, where: str, fn: pf.FuncDef, field: str, val: Dict[str, bool]):
+        self.where, self.fn, self.field, self.val = where, fn, field, val
+        self.cells: List[Set[str]] = []
+        self.fields: Dict[str, Optional[int]] = {}
+        for f in FREE_FIELDS:
+            if f == field and val['N']:
+                self.fields[f] = None
+            else:
+                self.fields[f] = self.new({f'OLD:{f}'})
+        self.env: Dict[str, Optional[int]] = {}
+        self.closures: Dict[str, ast.FunctionDef] = {}
+        self.used_closures: Set[str] = set()
+        self.result: Optional[Tuple[Optional[int]]] = None
+        self.atoms_seen: Set[str] = set()
+
+    def new(self, toks: Iterable[str]) -> int:
+        self.cells.append(set(toks))
+        return len(self.cells) - 1
+
+    def atom(self, e: ast.AST) -> bool:
+        k, pol = ic._norm_atom(e)
+        if k == f'self.{self.field} is None':
+            self.atoms_seen.add('N')
+            return self.val['N'] if pol else not self.val['N']
+        leaf = _children_len_atom(e)
+        if leaf is not None:
+            self.atoms_seen.add('L')
+            return leaf if self.val['L'] else not leaf
+        if (isinstance(e, ast.Call) and isinstance(e.func, ast.Attribute) and e.func.attr == 'uses_agg_capability' and not e.args and not e.keywords
+                and pf.nsrc(e.func.value) in ('self', 'type(self)', 'self.__class__')):
+            self.atoms_seen.add('U')
+            return self.val['U']
+        # truthiness / emptiness of a set value
+        x, truthy = e, True
+        if isinstance(e, ast.Compare) and len(e.ops) == 1 and isinstance(e.left, ast.Call) and pf.dotted(e.left.func) == 'len' and len(e.left.args) == 1 \
+                and isinstance(e.comparators[0], ast.Constant):
+            form = (type(e.ops[0]), e.comparators[0].value)
+            if form in ((ast.Eq, 0), (ast.LtE, 0), (ast.Lt, 1)):
+                x, truthy = e.left.args[0], False
+            elif form in ((ast.NotEq, 0), (ast.Gt, 0), (ast.GtE, 1)):
+                x, truthy = e.left.args[0], True
+        elif isinstance(e, ast.Call) and pf.dotted(e.func) == 'len' and len(e.args) == 1:
+            x = e.args[0]
+        if isinstance(x, ast.Name) and x.id in self.env or (isinstance(x, ast.Attribute) and pf.nsrc(x.value) == 'self' and x.attr in self.fields):
+            c = self.setval(x)
+            if c is not None:
+                toks = self.cells[c]
+                if not toks:
+                    nonempty = False
+                elif 'CAP' in toks:
+                    nonempty = True
+                elif all(k.startswith('KIDS') for k in toks):
+                    self.atoms_seen.add('E')
+                    nonempty = not (self.val['L'] or self.val['E'])
+                else:
+                    raise AnalysisError(f'{self.where}: emptiness of `{pf.nsrc(x)}` = {_fmt(toks)} is not decidable')
+                return nonempty == truthy
+        raise AnalysisError(f'{self.where}: unrecognised test `{pf.nsrc(e)}`')
+
+    def kids(self, elt: ast.AST, gens: Sequence[ast.comprehension]) -> Set[str]:
+        w = self.where
+        if len(gens) == 2:
+            g1, g2 = gens
+            ok = (isinstance(elt, ast.Name) and isinstance(g2.target, ast.Name) and g2.target.id == elt.id and isinstance(g2.iter, ast.Call)
+                  and isinstance(g2.iter.func, ast.Name) and g2.iter.func.id in self.closures and len(g2.iter.args) == 1
+                  and isinstance(g1.target, ast.Name) and pf.nsrc(g2.iter.args[0]) == g1.target.id)
+            callee = g2.iter.func.id if ok else None  # type: ignore[union-attr]
+            filt = list(g1.ifs) + list(g2.ifs)
+        elif len(gens) == 1:
+            g1 = gens[0]
+            ok = (isinstance(elt, ast.Call) and isinstance(elt.func, ast.Name) and elt.func.id in self.closures and len(elt.args) == 1
+                  and isinstance(g1.target, ast.Name) and pf.nsrc(elt.args[0]) == g1.target.id)
+            callee = elt.func.id if ok else None  # type: ignore[union-attr]
+            filt = list(g1.ifs)
+        else:
+            ok, callee, filt, g1 = False, None, [], None
+        if not ok:
+            raise AnalysisError(f'{w}: unrecognised comprehension over the children')
+        self.used_closures.add(callee)  # type: ignore[arg-type]
+        rng = g1.iter  # type: ignore[union-attr]
+        full = isinstance(rng, ast.Call) and pf.dotted(rng.func) == 'range' and len(rng.args) == 1 and pf.nsrc(rng.args[0]) == 'len(self.children)' and not rng.keywords
+        if filt:
+            raise AnalysisError(f'{w}: filtered comprehension over the children (`if {pf.nsrc(filt[0])}`) is not modelled')
+        if full:
+            return {'KIDS'}
+        if isinstance(rng, ast.Call) and pf.dotted(rng.func) == 'range' and not rng.keywords and all(
+                _int_const(a) is not None or pf.nsrc(a) in ('len(self.children)', 'len(self.children) - 1') for a in rng.args):
+            return {f'KIDS[{pf.nsrc(rng)}]'}  # recognisably not all children
+        raise AnalysisError(f'{w}: unrecognised child range `{pf.nsrc(rng)}`')
+
+    def setval(self, e: ast.AST) -> Optional[int]:
+        w = self.where
+        if isinstance(e, ast.Constant) and e.value is None:
+            return None
+        if isinstance(e, ast.Set):
+            if all(_is_cap(x) for x in e.elts):
+                return self.new({'CAP'})
+            raise AnalysisError(f'{w}: unrecognised set element in `{pf.nsrc(e)}`')
+        if isinstance(e, ast.SetComp):
+            return self.new(self.kids(e.elt, e.generators))
+        if isinstance(e, ast.Attribute) and isinstance(e.value, ast.Name) and e.value.id == 'self' and e.attr in self.fields:
+            return self.fields[e.attr]
+        if isinstance(e, ast.Name):
+            if e.id not in self.env:
+                raise AnalysisError(f'{w}: unbound local `{e.id}`')
+            return self.env[e.id]
+        if isinstance(e, ast.IfExp):
+            return self.setval(e.body if ic.eval_bool(e.test, self.atom) else e.orelse)
+        if isinstance(e, ast.BinOp) and isinstance(e.op, ast.BitOr):
+            a, b = self.setval(e.left), self.setval(e.right)
+            if a is None or b is None:
+                raise AnalysisError(f'{w}: union with None in `{pf.nsrc(e)}`')
+            return self.new(self.cells[a] | self.cells[b])
+        if isinstance(e, ast.Call):
+            d = pf.dotted(e.func)
+            if d in ('set', 'frozenset') and not e.keywords:
+                if not e.args:
+                    return self.new(())
+                if len(e.args) == 1 and isinstance(e.args[0], (ast.GeneratorExp, ast.SetComp, ast.ListComp)):
+                    return self.new(self.kids(e.args[0].elt, e.args[0].generators))
+                if len(e.args) == 1:
+                    a = self.setval(e.args[0])
+                    if a is not None:
+                        return self.new(self.cells[a])
+            if isinstance(e.func, ast.Attribute) and e.func.attr == 'copy' and not e.args:
+                a = self.setval(e.func.value)
+                if a is not None:
+                    return self.new(self.cells[a])
+            if isinstance(e.func, ast.Attribute) and e.func.attr == 'union' and not e.keywords:
+                a = self.setval(e.func.value)
+                if a is None:
+                    raise AnalysisError(f'{w}: union on None in `{pf.nsrc(e)}`')
+                acc = set(self.cells[a])
+                for x in e.args:
+                    if isinstance(x, ast.Starred) and isinstance(x.value, (ast.GeneratorExp, ast.ListComp)):
+                        acc |= self.kids(x.value.elt, x.value.generators)
+                    else:
+                        b = self.setval(x)
+                        if b is None:
+                            raise AnalysisError(f'{w}: union with None in `{pf.nsrc(e)}`')
+                        acc |= self.cells[b]
+                return self.new(acc)
+        raise AnalysisError(f'{w}: unrecognised set expression `{pf.nsrc(e)}`')
+
+    def visit(self, st: ast.stmt) -> None:
+        w = self.where
+        if isinstance(st, ast.FunctionDef):
+            self.closures[st.name] = st
+            return
+        if isinstance(st, (ast.Assert, ast.Pass)):
+            return
+        if isinstance(st, ast.Return):
+            if st.value is None:
+                raise AnalysisError(f'{w}: bare return')
+            self.result = (self.setval(st.value),)
+            return
+        if isinstance(st, (ast.Assign, ast.AnnAssign)):
+            tgts = st.targets if isinstance(st, ast.Assign) else [st.target]
+            if len(tgts) == 1 and st.value is not None:
+                tg = tgts[0]
+                if isinstance(tg, ast.Attribute) and isinstance(tg.value, ast.Name) and tg.value.id == 'self' and tg.attr in self.fields:
+                    self.fields[tg.attr] = self.setval(st.value)
+                    return
+                if isinstance(tg, ast.Name):
+                    self.env[tg.id] = self.setval(st.value)
+                    return
+        if isinstance(st, ast.AugAssign) and isinstance(st.op, ast.BitOr):
+            a = self.setval(st.target)
+            b = self.setval(st.value)
+            if a is not None and b is not None:
+                self.cells[a] |= self.cells[b]
+                return
+        if isinstance(st, ast.Expr) and isinstance(st.value, ast.Call) and isinstance(st.value.func, ast.Attribute) and not st.value.keywords:
+            c = st.value
+            recv = self.setval(c.func.value)  # type: ignore[attr-defined]
+            if recv is not None and c.func.attr == 'add' and len(c.args) == 1 and _is_cap(c.args[0]):  # type: ignore[attr-defined]
+                self.cells[recv].add('CAP')
+                return
+            if recv is not None and c.func.attr == 'update' and len(c.args) == 1:  # type: ignore[attr-defined]
+                b = self.setval(c.args[0])
+                if b is not None:
+                    self.cells[recv] |= self.cells[b]
+                    return
+        raise AnalysisError(f'{w}: unrecognised statement `{pf.nsrc(st)[:90]}`')
+
+    def run(self) -> Tuple[Optional[FrozenSet[str]], Optional[FrozenSet[str]]]:
+        r = ic.exec_block(self.fn.body, self.atom, self.visit)
+        if r is None or r[0] != 'return' or self.result is None:
+            raise AnalysisError(f'{self.where}: does not end in a return on the path {self.val}')
+        res = self.result[0]
+        fin = self.fields[self.field]
+        return (None if res is None else frozenset(self.cells[res])), (None if fin is None else frozenset(self.cells[fin]))
+
+
+def _shape_classes(t: ic.Table, prop: str) -> Dict[Tuple[bool, bool], List[str]]:
+    """(no children?, uses_agg_capability()?) -> value IR classes that inherit IR.<prop> and can have that shape."""
+    out: Dict[Tuple[bool, bool], List[str]] = {}
+    for cls in t.ir_classes():
+        if not cls.is_a('IR'):
+            continue
+        r = cls.resolve(prop)
+        if r is None or r[0].name != 'IR':
+            continue
+        u = bool(_returns_true(cls, 'uses_agg_capability'))
+        lays = ic.layouts(cls)
+        if any(all(s.kind != 'fixed' for s in lay.segs) for lay in lays):
+            out.setdefault((True, u), []).append(cls.name)
+        if any(lay.segs for lay in lays):
+            out.setdefault((False, u), []).append(cls.name)
+    return out
+
+
+_ir_prop_cache: Dict[str, pf.FuncDef] = {}
+
+
+def _ir_prop_fn(t: ic.Table, prop: str) -> pf.FuncDef:
+    """IR.<prop> with its same-class / module-level helper calls inlined (an extracted `_compute_free_vars()` is seen through)."""
+    if prop not in _ir_prop_cache:
+        ircls = t.get('IR')
+        fn = ircls.methods.get(prop)
+        if fn is None or 'property' not in pf.decorator_names(fn):
+            raise AnalysisError(f'anchor vanished: property IR.{prop}')
+        m2, _inl, _sk = ic.inline_all(ircls.mod, 'IR', prop)
+        cands = [f for f in m2.cls('IR').body if isinstance(f, ast.FunctionDef) and f.name == prop and 'property' in pf.decorator_names(f)]
+        if len(cands) != 1:
+            raise AnalysisError(f'anchor vanished: property IR.{prop}')
+        _ir_prop_cache[prop] = cands[0]
+    return _ir_prop_cache[prop]
+
+
+def check_free_props(ctx: Ctx, t: ic.Table) -> None:
+    """R11: on every path of IR.free_vars / free_agg_vars / free_scan_vars that does not return the cached value, the result (and the
+    value left in the cache) is the union over ALL children plus - for free_vars - the agg_capability marker when
+    uses_agg_capability() holds; a cache hit returns the cached value; cache fields are only pre-populated with a base case."""
+    ircls = t.get('IR')
+    for prop, field, _ in FREE_PROPS:
+        fn = _ir_prop_fn(t, prop)
+        cons = ircls.key(prop)
+        shapes = _shape_classes(t, prop)
+        ctx.need(shapes, f'{cons}: no IR class inherits it')
+        problems: List[str] = []
+        n_paths = 0
+        tested: Set[str] = set()
+        for (leaf, u), examples in sorted(shapes.items()):
+            # E: the children contribute no variable at all (always so for a child-less node)
+            for n, empty in ((True, True), (True, False), (False, True), (False, False)) if not leaf else ((True, True), (False, True)):
+                run = _FreeRun(cons, fn, field, {'N': n, 'L': leaf, 'U': u, 'E': empty})
+                res, fin = run.run()
+                tested |= run.atoms_seen
+                n_paths += 1
+                want_cap = u and prop == 'free_vars'
+                ex = ', '.join(examples[:3])
+                shape = (f'{"child-less" if leaf else "non-leaf"} node' + (' whose children have no free variables (e.g. hl.agg.sum(1))' if empty and not leaf else '')
+                         + f', uses_agg_capability()={u} (e.g. {ex})')
+
+                def norm(x: Optional[FrozenSet[str]], empty=empty) -> Optional[FrozenSet[str]]:
+                    if x is None:
+                        return None
+                    return frozenset(k for k in x if not (empty and k == 'KIDS'))
+                res, fin = norm(res), norm(fin)
+                if n:
+                    want = frozenset(([] if empty else ['KIDS']) + (['CAP'] if want_cap else []))
+                    if res != want:
+                        miss = sorted(want - (res or frozenset()))
+                        msg = f'first evaluation on a {shape} returns {_fmt(res) if res is not None else None}, expected {_fmt(want)}'
+                        if 'CAP' in miss:
+                            msg += (': the agg_capability marker is not added on this path, so the aggregation is no longer pinned below the '
+                                    'AggFilter/AggExplode/AggGroupBy/AggArrayPerElement that gives it meaning - e.g. a shared hl.agg.count() '
+                                    '(ApplyAggOp Count () ()) used inside and outside hl.agg.filter gets the bind depth of the enclosing block and is '
+                                    'let-lifted out of the filter (the filtered count becomes the unfiltered count)')
+                        elif miss:
+                            msg += ': free variables of (some) children are dropped, so a shared sub-term can be let-bound above the binder of a variable it uses'
+                        problems.append(msg)
+                    elif fin is not None and fin != want:
+                        problems.append(f'first evaluation on a {shape} returns {_fmt(res)} but leaves {_fmt(fin)} in self.{field}: later reads see a different set')
+                else:
+                    old = f'OLD:{field}'
+                    allowed = {old} | ({'CAP'} if want_cap else set())
+                    if res is None or old not in res or not res <= allowed:
+                        problems.append(f'with self.{field} already computed, a {shape} returns {_fmt(res) if res is not None else None} instead of the cached set')
+                    elif fin is None or old not in fin or not fin <= allowed:
+                        problems.append(f'with self.{field} already computed, a {shape} overwrites the cache with {_fmt(fin) if fin is not None else None}')
+        if problems:
+            ctx.bad('R11', cons, problems[0] + (f' (+{len(problems) - 1} more shapes)' if len(problems) > 1 else ''), ircls.mod.path, fn.lineno)
+        else:
+            ctx.ok('R11', cons, {'paths': n_paths, 'shapes': {f'leaf={k[0]},cap={k[1]}': len(v) for k, v in shapes.items()}, 'tests': sorted(tested)})
+        ctx.unit('free_var_paths', n_paths)
+
+    # cache fields written outside the three properties
+    for cls in t.classes.values():
+        for mname, fn in cls.methods.items():
+            if cls.name == 'IR' and mname in FREE_FIELDS.values():
+                continue
+            for st in pf.walk_shallow(fn):
+                tgts = st.targets if isinstance(st, ast.Assign) else [st.target] if isinstance(st, (ast.AnnAssign, ast.AugAssign)) else []
+                for tg in tgts:
+                    if not (isinstance(tg, ast.Attribute) and tg.attr in FREE_FIELDS):
+                        continue
+                    cons = f'{cls.key(mname)}::{pf.nsrc(tg)}'
+                    val = getattr(st, 'value', None)
+                    if not (isinstance(st, ast.Assign) and isinstance(tg.value, ast.Name) and tg.value.id == 'self' and val is not None):
+                        raise AnalysisError(f'{cons}: unrecognised write to a free-variable cache `{pf.nsrc(st)}`')
+                    if cls.name == 'IR':
+                        if isinstance(val, ast.Constant) and val.value is None and mname == '__init__':
+                            ctx.ok('R11', cons, 'None')
+                        elif isinstance(val, (ast.Set, ast.Dict)) or (isinstance(val, ast.Call) and pf.dotted(val.func) in ('set', 'frozenset')):
+                            ctx.bad('R11', cons, f'IR.{mname} pre-populates self.{tg.attr} with `{pf.nsrc(val)}` for every node: IR.{FREE_FIELDS[tg.attr]} then never '
+                                    f'computes the free variables, every shared sub-term gets the bind depth of its enclosing block', cls.mod.path, st.lineno)
+                        else:
+                            raise AnalysisError(f'{cons}: unrecognised initial value `{pf.nsrc(val)}`')
+                        continue
+                    if not cls.is_a('IR'):
+                        raise AnalysisError(f'{cons}: free-variable cache written outside the value IR classes')
+                    toks = _preset_tokens(cls, fn, val, cons)
+                    u = bool(_returns_true(cls, 'uses_agg_capability'))
+                    leaf_only = all(not lay.segs for lay in ic.layouts(cls))
+                    pre = PRESET_FREE.get((cls.name, tg.attr))
+                    if pre is not None and toks == pre[0]:
+                        ctx.ok('R11', cons, {'exception': pre[1]}, nontrivial=False)
+                        if pre[2]:
+                            ctx.info(f'C35-R11 note {cls.name}: {pre[2]}')
+                    elif leaf_only and toks == frozenset(['CAP'] if (u and tg.attr == '_free_vars') else []):
+                        ctx.ok('R11', cons, {'leaf': True, 'value': sorted(toks)})
+                    else:
+                        ctx.bad('R11', cons, f'{cls.name}.{mname} pre-populates self.{tg.attr} = {_fmt(toks)}, so IR.{FREE_FIELDS[tg.attr]} never runs the full computation '
+                                f'for this class: ' + ('the free variables of its children ' if not leaf_only else '') + ('and ' if (not leaf_only and u) else '')
+                                + ('the agg_capability marker ' if u and 'CAP' not in toks else '') + 'never reach the bind-depth computation, a shared sub-term is let-bound '
+                                'above a binder it depends on', cls.mod.path, st.lineno)
+
+
+def _cache_field_stores(tree: ast.AST) -> List[ast.Attribute]:
+    return [n for n in ast.walk(tree) if isinstance(n, ast.Attribute) and n.attr in FREE_FIELDS and isinstance(n.ctx, (ast.Store, ast.Del))]
+
+
+def check_external_cache_writes(ctx: Ctx, t: ic.Table) -> None:
+    """thorough: nothing outside hail/ir writes the free-variable caches (R11 reasons about every writer inside it)."""
+    control = ast.parse('x._free_vars = set()\ndel y._free_agg_vars')
+    ctx.need(len(_cache_field_stores(control)) == 2, 'positive control for the cache-field scan failed')
+    n = 0
+    for rel in pf.walk_py(['hail/python/hail'], exclude=['hail/python/hail/ir/', 'hail/python/hail/docs']):
+        try:
+            m = pf.load(rel)
+        except AnalysisError:
+            continue
+        n += 1
+        for a in _cache_field_stores(m.tree):
+            raise AnalysisError(f'{rel}:{a.lineno}: `{pf.nsrc(a)}` is written outside hail/ir (not modelled)')
+    ctx.ok('R11', 'hail/python/hail::no external writer of the free-variable caches', {'files': n}, nontrivial=False)
+    ctx.unit('files_scanned_for_cache_writes', n)
+
+
+def _preset_tokens(cls: ic.Cls, fn: pf.FuncDef, val: ast.AST, where: str) -> FrozenSet[str]:
+    attrs = ic._init_attrs(fn)
+    if isinstance(val, ast.Call) and pf.dotted(val.func) in ('set', 'frozenset') and not val.args:
+        return frozenset()
+    if isinstance(val, ast.Set):
+        out = set()
+        for x in val.elts:
+            if _is_cap(x):
+                out.add('CAP')
+            elif isinstance(x, ast.Name) and len(attrs.get(x.id, ())) >= 1:
+                out.add('A:' + sorted(attrs[x.id])[0])
+            elif ic._self_attr(x) is not None:
+                out.add(f'A:{ic._self_attr(x)}')
+            else:
+                raise AnalysisError(f'{where}: unrecognised element `{pf.nsrc(x)}`')
+        return frozenset(out)
+    raise AnalysisError(f'{where}: unrecognised value `{pf.nsrc(val)}`')
+
+
+FLOW_METHOD = 'renderable_child_context_without_bindings'
+Flow = Tuple[Optional[int], Optional[int], Optional[int]]
+
+
+def _flow_of(where: str, fn: pf.FuncDef, atom) -> Flow:
+    """Which component of the parent context (0 eval, 1 agg, 2 scan; None = not available) each component of the child context is,
+    on the path selected by the test oracle."""
+    params = [a.arg for a in fn.args.args]
+    if len(params) != 3:
+        raise AnalysisError(f'{where}: unrecognised signature')
+    pc = params[2]
+    env: Dict[str, int] = {}
+    res: List[Flow] = []
+
+    def visit(st: ast.stmt) -> None:
+        if isinstance(st, ast.Assign) and len(st.targets) == 1 and isinstance(st.targets[0], (ast.Tuple, ast.List)) and isinstance(st.value, ast.Name) and st.value.id == pc:
+            elts = st.targets[0].elts
+            if len(elts) == 3 and all(isinstance(x, ast.Name) for x in elts):
+                for k, x in enumerate(elts):
+                    if x.id in env:  # type: ignore[attr-defined]
+                        env[x.id] = -1  # type: ignore[attr-defined]  # bound twice (`_`): unusable
+                    else:
+                        env[x.id] = k  # type: ignore[attr-defined]
+                return
+        if isinstance(st, ast.Return) and st.value is not None:
+            v = st.value
+            if isinstance(v, ast.Name) and v.id == pc:
+                res.append((0, 1, 2))
+                return
+            if isinstance(v, ast.Tuple) and len(v.elts) == 3:
+                out: List[Optional[int]] = []
+                for x in v.elts:
+                    if isinstance(x, ast.Constant) and x.value is None:
+                        out.append(None)
+                    elif isinstance(x, ast.Name) and env.get(x.id, -1) >= 0:
+                        out.append(env[x.id])
+                    else:
+                        raise AnalysisError(f'{where}: unrecognised context component `{pf.nsrc(x)}`')
+                res.append((out[0], out[1], out[2]))
+                return
+        raise AnalysisError(f'{where}: unrecognised statement `{pf.nsrc(st)[:80]}`')
+
+    r = ic.exec_block(fn.body, atom, visit)
+    if r is None or r[0] != 'return' or not res:
+        raise AnalysisError(f'{where}: does not return a context')
+    return res[-1]
+
+
+def _ctx_switch_atom(val: Dict[str, bool], where: str):
+    def atom(e: ast.AST) -> bool:
+        if isinstance(e, ast.Call) and isinstance(e.func, ast.Attribute) and pf.nsrc(e.func.value) == 'self' and len(e.args) == 1 and not e.keywords:
+            if e.func.attr in ('renderable_uses_agg_context', 'uses_agg_context'):
+                return val['AC']
+            if e.func.attr in ('renderable_uses_scan_context', 'uses_scan_context'):
+                return val['SC']
+        raise AnalysisError(f'{where}: unrecognised test `{pf.nsrc(e)}`')
+    return atom
+
+
+SWITCH_VALS = ({'AC': False, 'SC': False}, {'AC': True, 'SC': False}, {'AC': False, 'SC': True})  # both at once is excluded by R6
+
+
+def _generic_flows(t: ic.Table) -> Dict[Tuple[bool, bool], Flow]:
+    base = t.get('BaseIR')
+    fn = base.methods.get(FLOW_METHOD)
+    if fn is None:
+        raise AnalysisError(f'anchor vanished: BaseIR.{FLOW_METHOD}')
+    w = base.key(FLOW_METHOD)
+    return {(v['AC'], v['SC']): _flow_of(w, fn, _ctx_switch_atom(v, w)) for v in SWITCH_VALS}
+
+
+def _comp_binders(t: ic.Table) -> Dict[int, str]:
+    """Context component -> kind of bindings BaseIR.renderable_child_context extends it with."""
+    base = t.get('BaseIR')
+    fn = base.methods.get('renderable_child_context')
+    if fn is None:
+        raise AnalysisError('anchor vanished: BaseIR.renderable_child_context')
+    w = base.key('renderable_child_context')
+    kinds: Dict[str, str] = {}
+    comps: Dict[str, int] = {}
+    out: Dict[int, str] = {}
+    for st in pf.walk_shallow(fn):
+        if isinstance(st, ast.Assign) and len(st.targets) == 1:
+            tg, v = st.targets[0], st.value
+            if isinstance(tg, ast.Name) and isinstance(v, ast.Call) and isinstance(v.func, ast.Attribute) and pf.nsrc(v.func.value) == 'self':
+                a = v.func.attr[len('renderable_'):] if v.func.attr.startswith('renderable_') else v.func.attr
+                if a in BINDER_API:
+                    kinds[tg.id] = a
+            if isinstance(tg, (ast.Tuple, ast.List)) and len(tg.elts) == 3 and all(isinstance(x, ast.Name) for x in tg.elts):
+                for k, x in enumerate(tg.elts):
+                    comps[x.id] = k  # type: ignore[attr-defined]
+    rets = [n for n in pf.walk_shallow(fn) if isinstance(n, ast.Return) and isinstance(n.value, ast.Tuple)]
+    if len(rets) != 1 or len(rets[0].value.elts) != 3:  # type: ignore[union-attr]
+        raise AnalysisError(f'{w}: unrecognised body (expected one `return _env_bind(..), _env_bind(..), _env_bind(..)`)')
+    for k, x in enumerate(rets[0].value.elts):  # type: ignore[union-attr]
+        if not (isinstance(x, ast.Call) and pf.dotted(x.func) == '_env_bind' and len(x.args) == 2 and all(isinstance(a, ast.Name) for a in x.args)):
+            raise AnalysisError(f'{w}: unrecognised context component `{pf.nsrc(x)}`')
+        c, b = x.args[0].id, x.args[1].id  # type: ignore[attr-defined]
+        if c not in comps or b not in kinds:
+            raise AnalysisError(f'{w}: unrecognised context component `{pf.nsrc(x)}`')
+        if comps[c] != k:
+            out[k] = f'<component {COMP_NAMES[comps[c]]} moved to position {COMP_NAMES[k]}>'
+        else:
+            out[k] = kinds[b]
+    return out
+
+
+def check_env_bind(ctx: Ctx, t: ic.Table) -> None:
+    """R12: the child context is the parent's context extended with ALL non-empty binding kinds, built without mutating the parent's
+    dictionaries (they are shared with the siblings and with the frames above)."""
+    base = t.get('BaseIR')
+    m = base.mod
+    fn = base.methods.get('renderable_child_context')
+    if fn is None:
+        raise AnalysisError('anchor vanished: BaseIR.renderable_child_context')
+    w = base.key('renderable_child_context')
+    kinds: Dict[str, str] = {}
+    for st in pf.walk_shallow(fn):
+        if isinstance(st, ast.Assign) and len(st.targets) == 1 and isinstance(st.targets[0], ast.Name) and isinstance(st.value, ast.Call) and isinstance(st.value.func, ast.Attribute):
+            a = st.value.func.attr
+            a = a[len('renderable_'):] if a.startswith('renderable_') else a
+            if a in BINDER_API and pf.nsrc(st.value.func.value) == 'self':
+                kinds[st.targets[0].id] = a
+    if sorted(kinds.values()) != sorted(BINDER_API):
+        raise AnalysisError(f'{w}: unrecognised body ({kinds})')
+    problems: List[str] = []
+    for val in ic.valuations(sorted(kinds)):
+        if not any(val.values()):
+            continue
+        ret: List[ast.AST] = []
+
+        def atom(e: ast.AST, val=val) -> bool:
+            if isinstance(e, ast.Name) and e.id in val:
+                return val[e.id]
+            raise AnalysisError(f'{w}: unrecognised test `{pf.nsrc(e)}`')
+
+        def visit(st: ast.stmt) -> None:
+            if isinstance(st, ast.Return) and st.value is not None:
+                ret.append(st.value)
+            elif not isinstance(st, (ast.Assign, ast.AnnAssign, ast.Pass)):
+                raise AnalysisError(f'{w}: unrecognised statement `{pf.nsrc(st)[:60]}`')
+        ic.exec_block(fn.body, atom, visit)
+        if len(ret) != 1:
+            raise AnalysisError(f'{w}: no return on the path {val}')
+        bound = {a.id for c in ast.walk(ret[0]) if isinstance(c, ast.Call) and pf.dotted(c.func) == '_env_bind' and len(c.args) == 2 for a in [c.args[1]] if isinstance(a, ast.Name)}
+        lost = sorted(kinds[b] for b, v in val.items() if v and b not in bound)
+        if lost:
+            problems.append(f'when {", ".join(kinds[b] + "(i) is " + ("non-empty" if v else "empty") for b, v in sorted(val.items()))} the returned context does not contain the '
+                            f'{"/".join(lost)}: the names are free in the child (free_* removes them only in the parent) but missing from its context - bind_depth cannot place them '
+                            f'(KeyError) or finds an outer binder of the same name (row, global, agg_capability, __rng_state) and lifts the let above this node')
+    ctx.check(not problems, 'R12', w + '::all binding kinds', problems[0] if problems else '', m.path, fn.lineno)
+    # _env_bind must be persistent
+    try:
+        eb = m.func('_env_bind')
+    except AnalysisError:
+        raise AnalysisError(f'anchor vanished: {m.rel}::_env_bind')
+    we = f'{m.rel}::_env_bind'
+    if len(eb.args.args) != 2:
+        raise AnalysisError(f'{we}: unrecognised signature')
+    envp, bp = eb.args.args[0].arg, eb.args.args[1].arg
+    problems = []
+    for val in ic.valuations([envp, bp]):
+        # value of a local: ('alias', param) or ('fresh', frozenset of params whose entries it holds, last writer)
+        loc: Dict[str, Tuple] = {envp: ('alias', envp), bp: ('alias', bp)}
+        out: List[Tuple] = []
+
+        def ev(e: ast.AST) -> Tuple:
+            if isinstance(e, ast.Name) and e.id in loc:
+                return loc[e.id]
+            if isinstance(e, ast.Call) and isinstance(e.func, ast.Attribute) and e.func.attr == 'copy' and not e.args:
+                v = ev(e.func.value)
+                return ('fresh', frozenset({v[1]}) if v[0] == 'alias' else v[1])
+            if isinstance(e, ast.Call) and pf.dotted(e.func) == 'dict' and len(e.args) == 1 and not e.keywords:
+                v = ev(e.args[0])
+                return ('fresh', frozenset({v[1]}) if v[0] == 'alias' else v[1])
+            if isinstance(e, ast.Dict) and all(k is None for k in e.keys):
+                acc: Set[str] = set()
+                for x in e.values:
+                    v = ev(x)
+                    acc |= {v[1]} if v[0] == 'alias' else set(v[1])
+                return ('fresh', frozenset(acc))
+            if isinstance(e, ast.BinOp) and isinstance(e.op, ast.BitOr):
+                a, b = ev(e.left), ev(e.right)
+                return ('fresh', frozenset(({a[1]} if a[0] == 'alias' else set(a[1])) | ({b[1]} if b[0] == 'alias' else set(b[1]))))
+            raise AnalysisError(f'{we}: unrecognised expression `{pf.nsrc(e)}`')
+
+        def atom2(e: ast.AST, val=val) -> bool:
+            if isinstance(e, ast.Name) and e.id in val:
+                return val[e.id]
+            raise AnalysisError(f'{we}: unrecognised test `{pf.nsrc(e)}`')
+
+        def visit2(st: ast.stmt) -> None:
+            if isinstance(st, ast.Assign) and len(st.targets) == 1 and isinstance(st.targets[0], ast.Name):
+                loc[st.targets[0].id] = ev(st.value)
+                return
+            if isinstance(st, ast.Return) and st.value is not None:
+                out.append(ev(st.value))
+                return
+            mut = None
+            if isinstance(st, ast.Expr) and isinstance(st.value, ast.Call) and isinstance(st.value.func, ast.Attribute) and st.value.func.attr == 'update' and len(st.value.args) == 1:
+                mut = (st.value.func.value, st.value.args[0])
+            elif isinstance(st, ast.AugAssign) and isinstance(st.op, ast.BitOr):
+                mut = (st.target, st.value)
+            if mut is not None and isinstance(mut[0], ast.Name) and mut[0].id in loc:
+                tgt, src = loc[mut[0].id], ev(mut[1])
+                srcs = {src[1]} if src[0] == 'alias' else set(src[1])
+                if tgt[0] == 'alias':
+                    if tgt[1] == envp:
+                        problems.append(f'`{pf.nsrc(st)}` adds the bindings to the parent\'s context dictionary in place: the dictionary is shared with the sibling children and the '
+                                        f'frames above, so a name bound for one child (agg_capability under an AggFilter, row/global under a nested table operation) keeps its inner '
+                                        f'depth after the traversal has left that child, e.g. t.aggregate(hl.struct(a=hl.agg.filter(t.idx > 3, hl.agg.count()), b=hl.agg.count())): '
+                                        f'the second Count computes a bind depth below its own frame (stack[bind_depth] is out of range or not one of its ancestors)')
+                    else:
+                        raise AnalysisError(f'{we}: mutates its bindings argument')
+                    loc[mut[0].id] = tgt
+                else:
+                    loc[mut[0].id] = ('fresh', frozenset(set(tgt[1]) | srcs))
+                return
+            raise AnalysisError(f'{we}: unrecognised statement `{pf.nsrc(st)[:60]}`')
+        r = ic.exec_block(eb.body, atom2, visit2)
+        if r is None or r[0] != 'return' or not out:
+            raise AnalysisError(f'{we}: no return on the path {val}')
+        res = out[-1]
+        have = {res[1]} if res[0] == 'alias' else set(res[1])
+        need = ({envp} if val[envp] else set()) | ({bp} if val[bp] else set())
+        if not need <= have and not problems:
+            problems.append(f'with {envp} {"non-empty" if val[envp] else "empty"} and {bp} {"non-empty" if val[bp] else "empty"} the result holds the entries of {sorted(have)} only: '
+                            + ('the enclosing binders are dropped from the child context' if envp in need - have else 'the new bindings are dropped from the child context'))
+    ctx.check(not problems, 'R12', we, problems[0] if problems else '', m.path, eb.lineno)
+
+
+class _Term:
+    __slots__ = ('child', 'comp', 'sub', 'src')
+
+    def __init__(self, child: str, comp: int, sub, src: str):
+        self.child, self.comp, self.sub, self.src = child, comp, sub, src
+
+
+def _free_terms(where: str, e: ast.AST, env: Dict[str, ast.AST], ivar: Optional[str], depth: int = 0) -> List[_Term]:
+    """A set expression built from `<child>.free_*` [.difference(S) | - S], set(), union / | .  <child> is `self.children[<ivar>]`
+    (label '*') or `self.<attr>` (label attr).  S is `self.<binder>(<ivar>, ..)[.keys()]` -> ('binder', kind) or a set literal -> ('names', tokens)."""
+    props = [p for p, _, _ in FREE_PROPS]
+    if depth > 6:
+        raise AnalysisError(f'{where}: expression too deep')
+    if isinstance(e, ast.Name) and e.id in env:
+        return _free_terms(where, env[e.id], env, ivar, depth + 1)
+    if isinstance(e, ast.Call) and pf.dotted(e.func) in ('set', 'frozenset') and not e.args:
+        return []
+    if isinstance(e, ast.Set) and e.elts and all(_is_cap(x) for x in e.elts):
+        return [_Term('<agg_capability>', -1, None, pf.nsrc(e))]
+    if isinstance(e, ast.BinOp) and isinstance(e.op, ast.BitOr):
+        return _free_terms(where, e.left, env, ivar, depth + 1) + _free_terms(where, e.right, env, ivar, depth + 1)
+    if isinstance(e, ast.Call) and isinstance(e.func, ast.Attribute) and e.func.attr == 'union' and not e.keywords:
+        out = _free_terms(where, e.func.value, env, ivar, depth + 1)
+        for a in e.args:
+            out += _free_terms(where, a, env, ivar, depth + 1)
+        return out
+    sub_e = None
+    base = e
+    if isinstance(e, ast.Call) and isinstance(e.func, ast.Attribute) and e.func.attr == 'difference' and len(e.args) == 1 and not e.keywords:
+        base, sub_e = e.func.value, e.args[0]
+    elif isinstance(e, ast.BinOp) and isinstance(e.op, ast.Sub):
+        base, sub_e = e.left, e.right
+    if sub_e is not None:
+        inner = _free_terms(where, base, env, ivar, depth + 1)
+        if len(inner) != 1 or inner[0].sub is not None:
+            raise AnalysisError(f'{where}: unrecognised subtraction `{pf.nsrc(e)}`')
+        inner[0].sub = _sub_of(where, sub_e, ivar)
+        inner[0].src = pf.nsrc(e)
+        return inner
+    if isinstance(e, ast.Attribute) and e.attr in props:
+        c = e.value
+        if (ivar is not None and isinstance(c, ast.Subscript) and pf.dotted(c.value) == 'self.children' and isinstance(c.slice, ast.Name) and c.slice.id == ivar):
+            return [_Term('*', props.index(e.attr), None, pf.nsrc(e))]
+        a = ic._self_attr(c)
+        if a is not None:
+            return [_Term(a, props.index(e.attr), None, pf.nsrc(e))]
+    raise AnalysisError(f'{where}: unrecognised free-variable expression `{pf.nsrc(e)}`')
+
+
+def _sub_of(where: str, e: ast.AST, ivar: Optional[str]):
+    x = e
+    if isinstance(x, ast.Call) and isinstance(x.func, ast.Attribute) and x.func.attr == 'keys' and not x.args:
+        x = x.func.value
+    elif isinstance(x, ast.Call) and pf.dotted(x.func) in ('set', 'frozenset') and len(x.args) == 1:
+        x = x.args[0]
+    if (isinstance(x, ast.Call) and isinstance(x.func, ast.Attribute) and pf.nsrc(x.func.value) == 'self' and x.args
+            and isinstance(x.args[0], ast.Name) and x.args[0].id == ivar):
+        a = x.func.attr[len('renderable_'):] if x.func.attr.startswith('renderable_') else x.func.attr
+        if a in BINDER_API:
+            return ('binder', a)
+    if isinstance(e, ast.Set):
+        toks = set()
+        for y in e.elts:
+            if _is_cap(y):
+                toks.add(ic.CAP)
+            elif ic._self_attr(y) is not None:
+                toks.add(f'A:{ic._self_attr(y)}')
+            elif isinstance(y, ast.Constant) and isinstance(y.value, str):
+                toks.add(f'S:{y.value}')
+            else:
+                raise AnalysisError(f'{where}: unrecognised name `{pf.nsrc(y)}` in a subtracted set')
+        return ('names', frozenset(toks))
+    raise AnalysisError(f'{where}: unrecognised subtracted set `{pf.nsrc(e)}`')
+
+
+def _closure_terms(where: str, fn: ast.FunctionDef, val: Dict[str, bool]) -> List[_Term]:
+    """vars_from_child(i) under a valuation of the context switches."""
+    if len(fn.args.args) != 1:
+        raise AnalysisError(f'{where}: unrecognised signature')
+    ivar = fn.args.args[0].arg
+    env: Dict[str, ast.AST] = {}
+    out: List[List[_Term]] = []
+
+    def visit(st: ast.stmt) -> None:
+        if isinstance(st, (ast.Assert, ast.Pass)):
+            return
+        if isinstance(st, ast.Assign) and len(st.targets) == 1 and isinstance(st.targets[0], ast.Name):
+            env[st.targets[0].id] = st.value
+            return
+        if isinstance(st, ast.Return) and st.value is not None:
+            out.append(_free_terms(where, st.value, env, ivar))
+            return
+        raise AnalysisError(f'{where}: unrecognised statement `{pf.nsrc(st)[:80]}`')
+    r = ic.exec_block(fn.body, _ctx_switch_atom(val, where), visit)
+    if r is None or r[0] != 'return' or not out:
+        raise AnalysisError(f'{where}: does not return a set')
+    return out[-1]
+
+
+def _prop_closure(where: str, fn: pf.FuncDef, field: str) -> ast.FunctionDef:
+    run = _FreeRun(where, fn, field, {'N': True, 'L': False, 'U': False, 'E': False})
+    run.run()
+    if len(run.used_closures) != 1:
+        raise AnalysisError(f'{where}: the per-child closure is not unique ({sorted(run.used_closures)})')
+    return run.closures[next(iter(run.used_closures))]
+
+
+WHY_TERM = ('a variable used by that child in that scope is missing from this node\'s free variables: the bind depth of this node and of every shared '
+            'ancestor ignores the binder of that variable, and a second occurrence is let-bound above it (unbound / captured variable in the IR sent to the engine)')
+
+
+def check_free_equations(ctx: Ctx, t: ic.Table) -> None:
+    """R12: the free-variable equations are the adjoint of the child contexts: component k of a child's context that is taken from
+    component P of the parent's context (renderable_child_context_without_bindings) and extended with the k-bindings
+    (renderable_child_context) contributes  child.free_k - k-bindings(i)  to the parent's free_P - no more, no less."""
+    flows = _generic_flows(t)
+    binders = _comp_binders(t)
+    base = t.get('BaseIR')
+    ircls = t.get('IR')
+    want_b = {0: 'bindings', 1: 'agg_bindings', 2: 'scan_bindings'}
+    ctx.check(binders == want_b, 'R12', base.key('renderable_child_context') + '::component binders',
+              f'the child context is extended with {binders}; the eval/agg/scan components must be extended with bindings/agg_bindings/scan_bindings '
+              f'respectively (bind_depth looks free_vars up in component 0, free_agg_vars in 1, free_scan_vars in 2)', base.mod.path,
+              base.methods['renderable_child_context'].lineno, detail=binders)
+    closures: Dict[str, ast.FunctionDef] = {}
+    # generic equations (class IR)
+    for k, (prop, field, _) in enumerate(FREE_PROPS):
+        fn = _ir_prop_fn(t, prop)
+        cons = ircls.key(prop) + '::vars_from_child'
+        clo = _prop_closure(ircls.key(prop), fn, field)
+        closures[prop] = clo
+        problems: List[str] = []
+        for v in SWITCH_VALS:
+            fl = flows[(v['AC'], v['SC'])]
+            terms = _closure_terms(cons, clo, v)
+            which = 'an aggregation-context child' if v['AC'] else 'a scan-context child' if v['SC'] else 'an ordinary child'
+            exp = {j for j in range(3) if fl[j] == k}
+            got = {}
+            for tm in terms:
+                if tm.child != '*' or tm.comp in got:
+                    raise AnalysisError(f'{cons}: unrecognised term `{tm.src}`')
+                got[tm.comp] = tm
+            for j in sorted(exp):
+                if j not in got:
+                    problems.append(f'for {which} the {COMP_NAMES[j]} free variables of the child (child.{FREE_PROPS[j][0]}) are not included in {prop} although the '
+                                    f'child\'s {COMP_NAMES[j]} context is this node\'s {COMP_NAMES[k]} context: {WHY_TERM}')
+                elif got[j].sub != ('binder', binders.get(j)):
+                    problems.append(f'for {which} `{got[j].src}` removes {got[j].sub[1] if got[j].sub else "nothing"} but the child\'s {COMP_NAMES[j]} context is extended with '
+                                    f'{binders.get(j)}(i): ' + ('a name bound by this node for the child stays free (bind_depth looks it up in a context that does not have it)'
+                                                                 if got[j].sub is None else 'the wrong names are removed'))
+            for j, tm in got.items():
+                if j in exp:
+                    continue
+                if fl[j] is None:
+                    continue  # that component is unavailable to the child: its free set must be empty in a well-formed IR
+                problems.append(f'for {which} `{tm.src}` is added to {prop}, but the child\'s {COMP_NAMES[j]} context is this node\'s {COMP_NAMES[fl[j]]} context: '  # type: ignore[index]
+                                f'the variable is looked up in the wrong component of the context')
+        if problems:
+            ctx.bad('R12', cons, problems[0] + (f' (+{len(problems) - 1} more)' if len(problems) > 1 else ''), ircls.mod.path, clo.lineno)
+        else:
+            ctx.ok('R12', cons, {'flows': {f'agg={a},scan={s_}': list(f) for (a, s_), f in flows.items()}})
+
+    # classes with their own child contexts / free-variable properties
+    for cls in t.ir_classes():
+        if not cls.is_a('IR'):
+            continue
+        own_flow = cls.resolve(FLOW_METHOD)
+        own_props = {p: cls.resolve(p) for p, _, _ in FREE_PROPS}
+        if (own_flow is None or own_flow[0].name == 'BaseIR') and all(r is None or r[0].name == 'IR' for r in own_props.values()):
+            continue
+        if cls.resolve('renderable_child_context')[0].name != 'BaseIR' or cls.resolve('child_context')[0].name != 'BaseIR':  # type: ignore[index]
+            raise AnalysisError(f'{cls.key()}: overrides renderable_child_context itself (not modelled)')
+        lays = ic.layouts(cls)
+        if len(lays) != 1 or lays[0].n_fixed() is None or ic.renderable_index_map(cls, lays[0]) is not None:
+            raise AnalysisError(f'{cls.key()}: custom free variables / child contexts on a variable child list (not modelled)')
+        lay = lays[0]
+        atoms = _all_atoms(cls, [FLOW_METHOD])
+        for fl in _vals(atoms):
+            pos_flow: Dict[ic.Pos, Flow] = {}
+            label: Dict[ic.Pos, str] = {}
+            for p, s in lay.positions():
+                label[p] = s.name
+                ac = _bool_method(t, cls, 'renderable_uses_agg_context', p, fl, lay)
+                sc = _bool_method(t, cls, 'renderable_uses_scan_context', p, fl, lay)
+                if own_flow is None or own_flow[0].name == 'BaseIR':
+                    pos_flow[p] = flows[(ac, sc)]
+                else:
+                    w = own_flow[0].key(FLOW_METHOD)
+                    ivar = own_flow[1].args.args[1].arg
+                    scen = ic.Scenario(cls, p, dict(fl), lay)
+                    for a in ic.collect_atoms(own_flow[1], ivar):
+                        scen.flags.setdefault(a, False)
+                    pos_flow[p] = _flow_of(w, own_flow[1], lambda e, scen=scen, ivar=ivar, w=w: ic.eval_test(scen, e, ivar, w))
+            attr_pos = {}
+            for p, s in lay.positions():
+                for a in lay.attr_names(s):
+                    attr_pos[a] = p
+            for k, (prop, field, _) in enumerate(FREE_PROPS):
+                owner, fn = own_props[prop]  # type: ignore[misc]
+                found: Dict[Tuple[ic.Pos, int], Tuple[FrozenSet[str], str]] = {}
+                if owner.name == 'IR':
+                    for p, s in lay.positions():
+                        ac = _bool_method(t, cls, 'renderable_uses_agg_context', p, fl, lay)
+                        sc = _bool_method(t, cls, 'renderable_uses_scan_context', p, fl, lay)
+                        for tm in _closure_terms(ircls.key(prop), closures[prop], {'AC': ac, 'SC': sc}):
+                            keys = ic.binder_keys(t, cls, tm.sub[1], p, fl, lay) if tm.sub else frozenset()
+                            found[(p, tm.comp)] = (keys, tm.src)
+                    where = ircls.key(prop)
+                    line, path = fn.lineno, owner.mod.path
+                else:
+                    where = owner.key(prop)
+                    line, path = fn.lineno, owner.mod.path
+                    env: Dict[str, ast.AST] = {}
+                    rets: List[ast.AST] = []
+
+                    def visit(st: ast.stmt) -> None:
+                        if isinstance(st, ast.Assign) and len(st.targets) == 1 and isinstance(st.targets[0], ast.Name):
+                            env[st.targets[0].id] = st.value
+                        elif isinstance(st, ast.Return) and st.value is not None:
+                            rets.append(st.value)
+                        elif not isinstance(st, (ast.Assert, ast.Pass)):
+                            raise AnalysisError(f'{where}: unrecognised statement `{pf.nsrc(st)[:80]}`')
+
+                    def no_tests(e: ast.AST) -> bool:
+                        raise AnalysisError(f'{where}: unrecognised test `{pf.nsrc(e)}`')
+                    ic.exec_block(fn.body, no_tests, visit)
+                    if len(rets) != 1:
+                        raise AnalysisError(f'{where}: does not return a set')
+                    own_terms = _free_terms(where, rets[0], env, None)
+                    has_cap = any(tm.comp == -1 for tm in own_terms)
+                    if prop == 'free_vars':
+                        u = bool(_returns_true(cls, 'uses_agg_capability'))
+                        ctx.check(has_cap == u or (has_cap and not u), 'R12', f'{cls.key(prop)}::agg_capability marker',
+                                  f'{cls.name} overrides free_vars without adding BaseIR.agg_capability although uses_agg_capability() is True: the aggregation is not pinned '
+                                  f'below the AggFilter/AggGroupBy/... that gives it meaning and is let-lifted out of it', path, line)
+                    elif has_cap:
+                        ctx.bad('R12', f'{cls.key(prop)}::agg_capability marker', f'{cls.name}.{prop} adds agg_capability, which is an eval-scope pseudo variable: '
+                                f'bind_depth looks it up in the {COMP_NAMES[k]} context, where it is never bound', path, line)
+                    for tm in own_terms:
+                        if tm.comp == -1:
+                            continue
+                        if tm.child not in attr_pos:
+                            raise AnalysisError(f'{where}: `{tm.src}`: self.{tm.child} is not a registered child')
+                        if tm.sub is not None and tm.sub[0] != 'names':
+                            raise AnalysisError(f'{where}: unrecognised subtraction in `{tm.src}`')
+                        if (attr_pos[tm.child], tm.comp) in found:
+                            raise AnalysisError(f'{where}: term `{tm.src}` appears twice')
+                        found[(attr_pos[tm.child], tm.comp)] = (tm.sub[1] if tm.sub else frozenset(), tm.src)
+                for p, _s in lay.positions():
+                    for j in range(3):
+                        cons = f'{cls.key(prop)}::{label[p]}.{FREE_PROPS[j][0]}'
+                        src_comp = pos_flow[p][j]
+                        if src_comp == k:
+                            keys = ic.binder_keys(t, cls, binders[j], p, fl, lay)
+                            if (p, j) not in found:
+                                ctx.bad('R12', cons, f'{cls.name}.{prop} does not include {label[p]}.{FREE_PROPS[j][0]}' + (f' - {_fmt(keys)}' if keys else '') +
+                                        f', although the {COMP_NAMES[j]} context of child `{label[p]}` is this node\'s {COMP_NAMES[k]} context '
+                                        f'({(own_flow or (base, None))[0].name}.{FLOW_METHOD}): {WHY_TERM}', path, line)
+                            elif found[(p, j)][0] != keys:
+                                ctx.bad('R12', cons, f'{cls.name}.{prop}: `{found[(p, j)][1]}` removes {_fmt(found[(p, j)][0])} but the {COMP_NAMES[j]} context of child '
+                                        f'`{label[p]}` is extended with {_fmt(keys)}: a bound name stays free or a free name is hidden from the bind-depth computation', path, line)
+                            else:
+                                ctx.ok('R12', cons, {'removes': sorted(keys)})
+                        elif (p, j) in found and src_comp is not None:
+                            ctx.bad('R12', cons, f'{cls.name}.{prop} includes `{found[(p, j)][1]}`, but the {COMP_NAMES[j]} context of child `{label[p]}` is this node\'s '
+                                    f'{COMP_NAMES[src_comp]} context, not its {COMP_NAMES[k]} context: the variable is looked up in the wrong component', path, line)
+
+
+# ---------------------------------------------------------------------------------------------------------------------------
+# R10 / R13 / R14: the two renderer passes
+# ---------------------------------------------------------------------------------------------------------------------------
+A_CLS, P_CLS = 'CSEAnalysisPass', 'CSEPrintPass'
+UID_FILE = 'hail/python/hail/utils/java.py'
+
+
+class _Pass:
+    """One renderer pass: its `__call__` with same-class / module-level helpers inlined, CFG, parent map, assignments."""
+
+    def __init__(self, m: pf.Module, cls_name: str):
+        self.cls_name = cls_name
+        self.orig = m
+        self.mod, self.inlined, self.skipped = ic.inline_all(m, cls_name, '__call__')
+        self.fn = self.mod.func(f'{cls_name}.__call__')
+        self.key = f'{m.rel}::{cls_name}.__call__'
+        self.assign = pf.assignments(self.fn)
+        self.cfg = pf.CFG(self.fn)
+        self.conds = ic.path_conditions(self.fn)
+        self.parent: Dict[int, ast.AST] = {}
+        for par in ast.walk(self.fn):
+            for ch in ast.iter_child_nodes(par):
+                self.parent[id(ch)] = par
+        self.selfname = self.fn.args.args[0].arg
+
+    def stmt_of(self, node: ast.AST) -> ast.stmt:
+        cur = node
+        while not isinstance(cur, ast.stmt):
+            cur = self.parent[id(cur)]
+        return cur
+
+    def node_of(self, st: ast.AST) -> pf.Node:
+        ns = [n for n in self.cfg.nodes if n.ast is st]
+        if len(ns) != 1:
+            ns = self.cfg.node_of(st)
+        if len(ns) != 1:
+            raise AnalysisError(f'{self.key}: statement `{pf.nsrc(st)[:60]}` has {len(ns)} CFG nodes')
+        return ns[0]
+
+    def defs(self, name: str) -> List[ast.AST]:
+        return self.assign.get(name, [])
+
+    def lits(self, st: ast.stmt) -> List[Tuple[ast.AST, bool]]:
+        out: List[Tuple[ast.AST, bool]] = []
+        work = [x for test, pol in self.conds.get(id(st), []) for x in ic.literals(test, pol)]
+        hops = 0
+        while work:
+            e, pol = work.pop(0)
+            d = pf.single_def(self.fn, e.id) if isinstance(e, ast.Name) else None
+            if d is not None and isinstance(d, (ast.BoolOp, ast.UnaryOp, ast.Compare, ast.Call, ast.Attribute)) and hops < 8:
+                hops += 1
+                work = ic.literals(d, pol) + work  # `ok = not (a or b)` ... `if ok:`
+            else:
+                out.append((e, pol))
+        return out
+
+    def reaching(self, st: ast.stmt, name: str) -> Optional[ast.AST]:
+        """The value of the nearest assignment `name = ...` that structurally precedes `st` (previous siblings, then the
+        enclosing statements' previous siblings); None if there is none or it is conditional."""
+        cur: ast.AST = st
+        while id(cur) in self.parent:
+            par = self.parent[id(cur)]
+            for fld in ('body', 'orelse', 'finalbody'):
+                blk = getattr(par, fld, None)
+                if isinstance(blk, list) and any(x is cur for x in blk):
+                    i = next(k for k, x in enumerate(blk) if x is cur)
+                    for prev in reversed(blk[:i]):
+                        if isinstance(prev, ast.Assign) and len(prev.targets) == 1 and isinstance(prev.targets[0], ast.Name) and prev.targets[0].id == name:
+                            return prev.value
+                        if any(isinstance(n, ast.Name) and n.id == name and isinstance(n.ctx, ast.Store) for n in ast.walk(prev)):
+                            return None
+            if par is self.fn:
+                break
+            cur = par
+        return None
+
+
+def _namedtuple_fields(m: pf.Module, name: str) -> Optional[List[str]]:
+    for n in ast.walk(m.tree):
+        if (isinstance(n, ast.Assign) and len(n.targets) == 1 and isinstance(n.targets[0], ast.Name) and n.targets[0].id == name
+                and isinstance(n.value, ast.Call) and pf.dotted(n.value.func) in ('namedtuple', 'collections.namedtuple') and len(n.value.args) == 2):
+            spec = n.value.args[1]
+            s = pf.const_str(spec)
+            if s is not None:
+                return s.replace(',', ' ').split()
+            if isinstance(spec, (ast.List, ast.Tuple)) and all(pf.const_str(x) is not None for x in spec.elts):
+                return [pf.const_str(x) for x in spec.elts]  # type: ignore[misc]
+    return None
+
+
+def _ctor_map(m: pf.Module, tuple_name: str, where: str) -> Tuple[Dict[str, ast.expr], ast.Call]:
+    """field -> argument expression of the unique construction site of a namedtuple in the module."""
+    fields = _namedtuple_fields(m, tuple_name)
+    if fields is None:
+        raise AnalysisError(f'{where}: namedtuple {tuple_name} not found')
+    calls = [c for c in ast.walk(m.tree) if isinstance(c, ast.Call) and (pf.dotted(c.func) or '').split('.')[-1] == tuple_name]
+    if len(calls) != 1:
+        raise AnalysisError(f'{where}: expected exactly one construction site of {tuple_name}, found {len(calls)}')
+    c = calls[0]
+    if any(isinstance(a, ast.Starred) for a in c.args) or any(k.arg is None for k in c.keywords) or len(c.args) > len(fields):
+        raise AnalysisError(f'{where}: unrecognised construction `{pf.nsrc(c)[:80]}`')
+    out: Dict[str, ast.expr] = dict(zip(fields, c.args))
+    for k in c.keywords:
+        if k.arg not in fields or k.arg in out:
+            raise AnalysisError(f'{where}: unrecognised keyword {k.arg} in `{pf.nsrc(c)[:80]}`')
+        out[k.arg] = k.value  # type: ignore[index]
+    return out, c
+
+
+def _first_word(text: str) -> Optional[str]:
+    t = text.lstrip()
+    if not t.startswith('('):
+        return None
+    w = ''
+    for ch in t[1:]:
+        if ch.isalnum() or ch == '_':
+            w += ch
+        else:
+            break
+    return w or None
+
+
+class _Emission:
+    def __init__(self, node: ast.JoinedStr, word: str, parts: List, stmt: ast.stmt):
+        self.node, self.word, self.parts, self.stmt = node, word, parts, stmt
+        self.holes = [x for x in parts if not isinstance(x, str)]
+
+
+def _emissions(t: ic.Table, ps: _Pass) -> List[_Emission]:
+    """f-strings of the print pass that open an IR node: `(Let eval {name} `, `(AggLet {name} False `, `(Ref {name})`."""
+    out = []
+    for n in ast.walk(ps.fn):
+        if not isinstance(n, ast.JoinedStr):
+            continue
+        parts: List = []
+        for v in n.values:
+            if isinstance(v, ast.Constant) and isinstance(v.value, str):
+                parts.append(v.value)
+            elif isinstance(v, ast.FormattedValue):
+                if v.conversion != -1 or v.format_spec is not None:
+                    raise AnalysisError(f'{ps.key}: formatted hole in `{pf.nsrc(n)}`')
+                parts.append(v.value)
+        if not parts or not isinstance(parts[0], str):
+            continue
+        w = _first_word(parts[0])
+        if w is None or w not in t.classes:
+            continue
+        out.append(_Emission(n, w, parts, ps.stmt_of_expr(n) if hasattr(ps, 'stmt_of_expr') else ps.stmt_of(n)))
+    return out
+
+
+def _table_attr(ps: _Pass, e: ast.AST, tables: Set[str], depth: int = 0) -> Optional[Set[str]]:
+    """The name-table attributes an expression may denote: `<x>.<T>` or a local all of whose definitions are None / `<x>.<T>`.
+    None when it is not a name table; AnalysisError when it only sometimes is."""
+    if isinstance(e, ast.Attribute) and e.attr in tables:
+        return {e.attr}
+    if isinstance(e, ast.Name) and depth < 3:
+        got: Set[str] = set()
+        other = False
+        for d in ps.defs(e.id):
+            if isinstance(d, ast.Constant) and d.value is None:
+                continue
+            r = _table_attr(ps, d, tables, depth + 1) if isinstance(d, ast.expr) else None
+            if r is None:
+                other = True
+            else:
+                got |= r
+        if got and other:
+            raise AnalysisError(f'{ps.key}: local `{e.id}` is only sometimes a table of lifted lets')
+        return got or None
+    return None
+
+
+def _name_tables(ctx: Ctx, t: ic.Table, pa: _Pass, pp: _Pass) -> Tuple[Dict[str, str], List[_Emission], str]:
+    """Dataflow from the binders the print pass emits back to the analysis-pass tables that hold their names.
+    Returns ({print-pass table -> analysis-pass StackFrame attribute}, emissions, the local that carries the name)."""
+    ems = [e for e in _emissions(t, pp) if e.word == 'Ref' or t.classes[e.word] in _binder_classes(t)]
+    ctx.need(any(e.word != 'Ref' for e in ems), f'{pp.key}: no emitted let binder found')
+    ptabs: Set[str] = set()
+    carriers: Set[str] = set()
+    for e in ems:
+        if len(e.holes) != 1:
+            raise AnalysisError(f'{pp.key}: `{pf.nsrc(e.node)}` has {len(e.holes)} holes (expected exactly the bound name)')
+        h = e.holes[0]
+        srcs = [h]
+        if isinstance(h, ast.Name):
+            carriers.add(h.id)
+            srcs = pp.defs(h.id)
+            ctx.need(srcs, f'{pp.key}: emitted name `{h.id}` is never assigned')
+        for sx in srcs:
+            if not (isinstance(sx, ast.Subscript) and isinstance(sx.value, ast.Attribute)):
+                # a name made up by the print pass itself: recognise numbering by the size of a per-site container
+                tp = _template(sx) if isinstance(sx, ast.expr) else None
+                fields = _namedtuple_fields(pp.orig, 'BindingsStackFrame') or []
+                site_len = [n for part in (tp or []) if not isinstance(part, str) for n in ast.walk(part)
+                            if isinstance(n, ast.Call) and pf.dotted(n.func) == 'len' and len(n.args) == 1 and isinstance(n.args[0], ast.Attribute) and n.args[0].attr in fields]
+                others = [part for part in (tp or []) if not isinstance(part, str) and not any(n in ast.walk(part) for n in site_len)]
+                if tp is not None and site_len and not others:
+                    ctx.bad('R10', f'{pp.key}::{pf.nsrc(e.node)}', f'the print pass names a lifted let `{pf.nsrc(sx)}`: numbered by the size of the binding site\'s own '
+                            f'`{site_len[0].args[0].attr}`, so two nested binding sites both start at the first number and the inner let shadows the outer one (a Ref to the '  # type: ignore[attr-defined]
+                            f'outer binding inside the inner scope reads the inner value)', pp.orig.path, e.node.lineno)
+                raise AnalysisError(f'{pp.key}: emitted name comes from `{pf.nsrc(sx)[:60]}`, not from a table filled by the analysis pass')
+            ptabs.add(sx.value.attr)
+    if len(carriers) != 1:
+        raise AnalysisError(f'{pp.key}: binder and reference names are carried by {sorted(carriers)} (expected one local)')
+    m = pa.orig
+    bsf, _ = _ctor_map(m, 'BindingsStackFrame', pp.key)
+    bs, _ = _ctor_map(m, 'BindingSite', pa.key)
+    out: Dict[str, str] = {}
+    for tb, src in bsf.items():
+        # every field of the print-pass frame that is filled, through the binding site, from a per-frame attribute of the analysis pass
+        if isinstance(src, ast.Attribute) and src.attr in bs and isinstance(bs[src.attr], ast.Attribute) and pf.nsrc(bs[src.attr].value) == 'self':  # type: ignore[union-attr]
+            out[tb] = bs[src.attr].attr  # type: ignore[union-attr]
+    for tb in sorted(ptabs):
+        if tb not in out:
+            raise AnalysisError(f'{pp.key}: table `{tb}` is not a field of BindingsStackFrame filled from a StackFrame attribute of the analysis pass through BindingSite')
+    return out, ems, next(iter(carriers))
+
+
+def _frame_var(ps: _Pass, e: ast.AST, depth: int = 0) -> bool:
+    """Is the expression one of the per-node stack frames (stack[...], x.make_child_frame(...), <Pass>.StackFrame(...))?"""
+    if depth > 8:
+        return False
+    if isinstance(e, ast.Subscript):
+        return _frame_list(ps, e.value, depth + 1)
+    if isinstance(e, ast.Call) and isinstance(e.func, ast.Attribute) and e.func.attr in ('make_child_frame', 'StackFrame', 'make'):
+        return True
+    if isinstance(e, ast.Name):
+        ds = ps.defs(e.id)
+        return bool(ds) and all(isinstance(d, ast.expr) and _frame_var(ps, d, depth + 1) for d in ds)
+    return False
+
+
+def _frame_list(ps: _Pass, e: ast.AST, depth: int = 0) -> bool:
+    if isinstance(e, ast.Name) and depth <= 8:
+        ds = ps.defs(e.id)
+        return bool(ds) and all(isinstance(d, (ast.List, ast.Tuple)) and d.elts and all(_frame_var(ps, x, depth + 1) for x in d.elts) for d in ds)
+    return False
+
+
+def _template(e: ast.AST) -> Optional[List]:
+    """[str | hole expression] for an f-string, `'p' + str(x)`, or a constant."""
+    if isinstance(e, ast.Constant) and isinstance(e.value, str):
+        return [e.value]
+    if isinstance(e, ast.JoinedStr):
+        out: List = []
+        for v in e.values:
+            if isinstance(v, ast.Constant) and isinstance(v.value, str):
+                out.append(v.value)
+            elif isinstance(v, ast.FormattedValue) and v.conversion == -1 and v.format_spec is None:
+                out.append(v.value)
+            else:
+                return None
+        return out
+    if isinstance(e, ast.BinOp) and isinstance(e.op, ast.Add):
+        a, b = _template(e.left), _template(e.right)
+        if a is not None and b is not None:
+            return a + b
+        return None
+    if isinstance(e, ast.Call) and pf.dotted(e.func) in ('str', 'escape_id') and len(e.args) == 1 and not e.keywords:
+        return [e]
+    return None
+
+
+class _Draw:
+    """Classification of one hole of a generated name."""
+
+    def __init__(self, kind: str, what: str, node: Optional[ast.stmt] = None, ref: Optional[str] = None, sub: FrozenSet[str] = frozenset()):
+        self.kind, self.what, self.node, self.ref = kind, what, node, ref  # kind: const | site | counter
+        self.sub = sub  # for site draws: {'index'} (position within one site / per-frame state) and / or {'depth'} (which site on the path)
+
+
+def _classify_hole(ps: _Pass, tables: Set[str], e: ast.AST, at: ast.stmt, chain: List[ast.stmt], depth: int = 0) -> _Draw:
+    w = ps.key
+    if depth > 4:
+        raise AnalysisError(f'{w}: name expression too deep')
+    if isinstance(e, ast.Constant) and isinstance(e.value, (int, str)):
+        return _Draw('const', repr(e.value))
+    if isinstance(e, ast.Call) and pf.dotted(e.func) in ('str', 'int') and len(e.args) == 1:
+        return _classify_hole(ps, tables, e.args[0], at, chain, depth + 1)
+    if isinstance(e, ast.BinOp) and isinstance(e.op, (ast.Add, ast.Sub, ast.Mult)):
+        a = _classify_hole(ps, tables, e.left, at, chain, depth + 1)
+        b = _classify_hole(ps, tables, e.right, at, chain, depth + 1)
+        if a.kind == 'const':
+            a, b = b, a
+        if b.kind == 'const':
+            if a.kind == 'counter' and not isinstance(e.op, ast.Add):
+                raise AnalysisError(f'{w}: counter used under `{pf.nsrc(e)}`')
+            return a
+        if a.kind == 'site' and b.kind == 'site':
+            return _Draw('site', f'{a.what}, {b.what}', sub=a.sub | b.sub)
+        raise AnalysisError(f'{w}: unrecognised name component `{pf.nsrc(e)}`')
+    if isinstance(e, ast.Call) and pf.dotted(e.func) == 'len' and len(e.args) == 1 and not e.keywords:
+        x = e.args[0]
+        tb = _table_attr(ps, x, tables)
+        if tb is not None:
+            return _Draw('site', f'len() of the binding site\'s own table of lifted lets ({"/".join(sorted(tb))})', sub=frozenset({'index'}))
+        if _frame_list(ps, x):
+            return _Draw('site', f'the depth of the traversal stack (`{pf.nsrc(e)}`)', sub=frozenset({'depth'}))
+        if isinstance(x, ast.Attribute) and _frame_var(ps, x.value):
+            return _Draw('site', f'len() of a per-frame container (`{pf.nsrc(e)}`)', sub=frozenset({'index'}))
+        raise AnalysisError(f'{w}: unrecognised name component `{pf.nsrc(e)}`')
+    if isinstance(e, ast.Call) and pf.dotted(e.func) == 'next' and len(e.args) == 1 and not e.keywords and (pf.dotted(e.args[0]) or '').split('.')[0] == ps.selfname:
+        return _Draw('counter', pf.dotted(e.args[0]) + '()', at, pf.dotted(e.args[0]))  # an iterator held by the pass: reading is incrementing
+    if isinstance(e, ast.Call) and isinstance(e.func, ast.Attribute) and _frame_var(ps, e.func.value):
+        return _Draw('site', f'a per-frame quantity (`{pf.nsrc(e)}`)', sub=frozenset({'depth' if 'depth' in e.func.attr else 'index'}))
+    d = pf.dotted(e)
+    if isinstance(e, ast.Attribute) and d is not None:
+        root = d.split('.')[0]
+        if root == ps.selfname:
+            return _Draw('counter', d, at, d)
+        if _frame_var(ps, ast.Name(id=root, ctx=ast.Load())):
+            return _Draw('site', f'an attribute of a stack frame (`{d}`): one value per binding site / node, not per render',
+                         sub=frozenset({'depth' if 'depth' in d.split('.')[-1] else 'index'}))
+        raise AnalysisError(f'{w}: unrecognised name component `{d}`')
+    if isinstance(e, ast.Name):
+        ds = ps.defs(e.id)
+        if any(isinstance(x, ast.AugAssign) for x in ds):
+            return _Draw('counter', e.id, at, e.id)
+        if len(ds) == 1 and isinstance(ds[0], ast.expr):
+            st = ps.stmt_of(ds[0])
+            chain.append(st)
+            return _classify_hole(ps, tables, ds[0], st, chain, depth + 1)
+        if ds and all(isinstance(x, ast.expr) for x in ds):
+            kinds = [_classify_hole(ps, tables, x, ps.stmt_of(x), [], depth + 1) for x in ds]
+            if all(k.kind == 'site' for k in kinds):
+                return _Draw('site', kinds[0].what, sub=frozenset().union(*[k.sub for k in kinds]))
+        raise AnalysisError(f'{w}: unrecognised name component `{e.id}`')
+    raise AnalysisError(f'{w}: unrecognised name component `{pf.nsrc(e)}`')
+
+
+def _int_const(e: ast.AST) -> Optional[int]:
+    if isinstance(e, ast.Constant) and isinstance(e.value, int) and not isinstance(e.value, bool):
+        return e.value
+    if isinstance(e, ast.UnaryOp) and isinstance(e.op, ast.USub) and isinstance(e.operand, ast.Constant) and isinstance(e.operand.value, int):
+        return -e.operand.value
+    return None
+
+
+def _counter_stores(scope: ast.AST, ref: str) -> List[Tuple[str, ast.stmt]]:
+    """(kind, statement) for every store to the counter `ref` ('self.a' or a local name) in `scope`: init (constant), inc (+k, k>0), bad (anything else)."""
+    out = []
+    for st in ast.walk(scope):
+        tgts: List[ast.AST] = []
+        if isinstance(st, ast.Assign):
+            tgts = list(st.targets)
+        elif isinstance(st, (ast.AugAssign, ast.AnnAssign)):
+            tgts = [st.target]
+        elif isinstance(st, ast.Delete):
+            tgts = list(st.targets)
+        for tg in tgts:
+            for x in ast.walk(tg):
+                if isinstance(x, (ast.Name, ast.Attribute)) and pf.dotted(x) == ref and isinstance(getattr(x, 'ctx', None), (ast.Store, ast.Del)):
+                    if isinstance(st, ast.AugAssign) and x is tg:
+                        k = _int_const(st.value)
+                        if isinstance(st.op, ast.Add) and k is not None and k > 0:
+                            out.append(('inc', st))
+                        elif isinstance(st.op, ast.Sub) and k is not None and k < 0:
+                            out.append(('inc', st))
+                        elif k is not None:
+                            out.append(('noinc', st))
+                        else:
+                            out.append(('bad', st))
+                    elif isinstance(st, (ast.Assign, ast.AnnAssign)) and x is tg and st.value is not None:
+                        v = st.value
+                        if isinstance(scope, (ast.FunctionDef, ast.AsyncFunctionDef)):
+                            v = pf.expand_locals(scope, v)
+                        if _int_const(v) is not None:
+                            out.append(('init', st))
+                        elif isinstance(v, ast.Call) and pf.dotted(v.func) in ('itertools.count', 'count') and all(_int_const(a) is not None for a in v.args) and not v.keywords:
+                            out.append(('init', st))
+                        elif (isinstance(v, ast.BinOp) and isinstance(v.op, ast.Add) and ((pf.dotted(v.left) == ref and (_int_const(v.right) or 0) > 0)
+                                                                                        or (pf.dotted(v.right) == ref and (_int_const(v.left) or 0) > 0))):
+                            out.append(('inc', st))
+                        else:
+                            out.append(('bad', st))
+                    else:
+                        out.append(('bad', st))
+    return out
+
+
+def _uid_prefix() -> Tuple[str, str]:
+    """Constant prefix of the identifiers Env.get_uid() hands out to user-visible binders."""
+    m = pf.load(UID_FILE)
+    fn = m.func('Env.get_uid')
+    rets = [n for n in pf.walk_shallow(fn) if isinstance(n, ast.Return) and n.value is not None]
+    pre = set()
+    for r in rets:
+        tp = _template(r.value)
+        if tp is None or not tp or not isinstance(tp[0], str) or not tp[0]:
+            raise AnalysisError(f'{UID_FILE}::Env.get_uid: unrecognised name template `{pf.nsrc(r.value)}`')
+        pre.add(tp[0])
+    if len(pre) != 1:
+        raise AnalysisError(f'{UID_FILE}::Env.get_uid: no unique name prefix')
+    return next(iter(pre)), f'{UID_FILE}::Env.get_uid'
+
+
+def _fixed_names(t: ic.Table) -> Set[str]:
+    """String-literal variable names bound by IR nodes ('row', 'global', 'va', ...)."""
+    out: Set[str] = set()
+    envs = ic.env_method_keys()
+    for kind in envs.values():
+        for keys, _dv, _k in kind.values():
+            out |= set(keys)
+    for cls in _binder_classes(t):
+        for lay in ic.layouts(cls)[:1]:
+            for p, _ in _positions(cls, lay, {}):
+                for f in BINDER_API:
+                    try:
+                        toks = ic.binder_keys(t, cls, f, p, {DV: False}, lay)
+                    except AnalysisError:
+                        continue
+                    out |= {k[2:] for k in toks if k.startswith('S:')}
+    return out
+
+
+def check_fresh_names(ctx: Ctx, t: ic.Table, pa: _Pass, pp: _Pass) -> Dict[str, str]:
+    """R10: every name bound by an emitted Let / AggLet is drawn from a generator that is injective over the whole render."""
+    plumbing, ems, carrier = _name_tables(ctx, t, pa, pp)
+    tables = set(plumbing.values())
+    m = pa.orig
+    a_cls = m.cls(A_CLS)
+    # every mutation of a name table inside the analysis pass
+    writers: List[ast.Assign] = []
+    for n in ast.walk(pa.fn):
+        if isinstance(n, ast.Call) and isinstance(n.func, ast.Attribute) and n.func.attr in ('update', 'setdefault', 'pop', 'popitem', 'clear', '__setitem__'):
+            if _table_attr(pa, n.func.value, tables):
+                raise AnalysisError(f'{pa.key}: table of lifted lets mutated through `{pf.nsrc(n)[:60]}` (not modelled)')
+        if isinstance(n, ast.Assign):
+            for tg in n.targets:
+                if isinstance(tg, ast.Subscript) and _table_attr(pa, tg.value, tables):
+                    if len(n.targets) != 1:
+                        raise AnalysisError(f'{pa.key}: chained assignment into a table of lifted lets')
+                    writers.append(n)
+    for sub in ast.walk(a_cls):
+        if isinstance(sub, (ast.FunctionDef,)) and sub.name != '__call__':
+            for n in ast.walk(sub):
+                if isinstance(n, ast.Assign):
+                    for tg in n.targets:
+                        if isinstance(tg, ast.Subscript) and isinstance(tg.value, ast.Attribute) and tg.value.attr in tables:
+                            if sub.name not in [h for h, _ in pa.inlined]:
+                                raise AnalysisError(f'{m.rel}::{A_CLS}.{sub.name}: writes a table of lifted lets outside __call__ (not modelled)')
+                        if isinstance(tg, ast.Attribute) and tg.attr in tables and not (isinstance(n.value, ast.Dict) and not n.value.keys):
+                            raise AnalysisError(f'{m.rel}::{A_CLS}.{sub.name}: `{pf.nsrc(n)[:60]}`: table of lifted lets not initialised empty')
+    ctx.need(writers, f'{pa.key}: no statement registers a name for a lifted let')
+    if any(isinstance(c, ast.Call) and (pf.dotted(c.func) in (A_CLS, 'type(self)', 'self.__class__')) for c in ast.walk(a_cls)):
+        raise AnalysisError(f'{m.rel}::{A_CLS}: the pass instantiates itself (per-recursion pass objects are not modelled)')
+    uid_prefix, uid_where = _uid_prefix()
+    fixed = _fixed_names(t)
+    for wst in writers:
+        cons = f'{pa.key}::{pf.nsrc(wst.targets[0])} = <name>'
+        chain: List[ast.stmt] = [wst]
+        val: ast.AST = wst.value
+        hops = 0
+        while isinstance(val, ast.Name) and hops < 4:
+            ds = pa.defs(val.id)
+            if len(ds) != 1 or not isinstance(ds[0], ast.expr):
+                raise AnalysisError(f'{cons}: the name `{val.id}` has {len(ds)} definitions')
+            st = pa.stmt_of(ds[0])
+            chain.append(st)
+            val = ds[0]
+            hops += 1
+        tp = _template(val)
+        if tp is None:
+            raise AnalysisError(f'{cons}: unrecognised name expression `{pf.nsrc(val)[:80]}`' + (f' (helpers not inlined: {pa.skipped})' if pa.skipped else ''))
+        at = chain[-1]
+        draws: List[Tuple[ast.AST, _Draw]] = []
+        sub_chains: List[List[ast.stmt]] = []
+        for part in tp:
+            if isinstance(part, str):
+                continue
+            ch: List[ast.stmt] = []
+            draws.append((part, _classify_hole(pa, tables, part, at, ch)))
+            sub_chains.append(ch)
+        line = wst.lineno
+        src = pf.nsrc(val)
+        counters = [(h, d, ch) for (h, d), ch in zip(draws, sub_chains) if d.kind == 'counter']
+        sites = [d for _, d in draws if d.kind == 'site']
+        if not counters:
+            subs = frozenset().union(*[d.sub for d in sites]) if sites else frozenset()
+            if subs == {'index', 'depth'}:
+                raise AnalysisError(f'{cons}: name `{src}` combines a site depth with an index within the site (injectivity not decided)')
+            what = sites[0].what if sites else 'no varying component at all'
+            if 'index' not in subs:
+                ctx.bad('R10', cons, f'the name of a lifted let is `{src}`: it varies only with {what}, so all lets lifted to one binding site get the same name: the second '
+                        f'`(Let eval <name> ..)` shadows the first and every `(Ref <name>)` meant for the first shared sub-term reads the second, e.g. '
+                        f'hl.struct(a=(x + 1) * (x + 1), b=(x + 2) * (x + 2)) renders b as a function of x + 2 only because both sums are bound under one name', m.path, line)
+                continue
+            ctx.bad('R10', cons, f'the name of a lifted let is `{src}`: it is numbered by {what}, not drawn from a counter shared by all binding sites of the render. '
+                    f'Two nested binding sites therefore hand out the same name (both start at the first number): the inner `(Let eval {tp[0] if isinstance(tp[0], str) else ""}1 ..)` '
+                    f'shadows the outer one and a `(Ref ..1)` to the outer binding placed inside the inner scope silently reads the inner value, e.g. '
+                    f'hl.bind(lambda c: a.map(lambda x: (x + 1) * (x + 1) + (c * c + c * c)), 3): c*c is bound outside the StreamMap, x+1 inside, under the same name',
+                    m.path, line)
+            continue
+        if len(counters) > 1 or sites:
+            raise AnalysisError(f'{cons}: name `{src}` mixes several varying components (not modelled)')
+        hole, draw, ch = counters[0]
+        ref = draw.ref or ''
+        # (iv) injective formatting with a reserved prefix
+        if not (isinstance(tp[0], str) and tp[0] and tp.index(hole) == 1 and all(isinstance(x, str) for x in tp[2:])):
+            raise AnalysisError(f'{cons}: unrecognised name template `{src}` (expected a constant prefix followed by the counter)')
+        prefix = tp[0]
+        problems: List[str] = []
+        if prefix.startswith(uid_prefix) or uid_prefix.startswith(prefix):
+            problems.append(f'generated names `{prefix}<n>` are not disjoint from the identifiers `{uid_prefix}<n>` that {uid_where} hands to user-visible binders (hl.bind, lambdas): '
+                            f'a lifted let can shadow (or be shadowed by) a user binding of the same name')
+        clash = sorted(x for x in fixed if x.startswith(prefix) and x[len(prefix):].isdigit())
+        if clash:
+            problems.append(f'generated names `{prefix}<n>` can equal the fixed variable name(s) {clash}')
+        # (i)-(iii) the counter
+        if '.' in ref:
+            scope_stores = []
+            for f in a_cls.body:
+                if isinstance(f, ast.FunctionDef):
+                    for kind, st in _counter_stores(f, ref):
+                        scope_stores.append((f.name, kind, st))
+            attr = ref.split('.')[-1]
+            for n in ast.walk(m.tree):
+                if isinstance(n, ast.Attribute) and n.attr == attr and isinstance(n.ctx, (ast.Store, ast.Del)) and pf.dotted(n) != ref:
+                    raise AnalysisError(f'{cons}: `{pf.nsrc(n)}` may alias the counter {ref} (not modelled)')
+            inits = [x for x in scope_stores if x[1] == 'init' and x[0] == '__init__']
+            if not inits and not any(x[1] == 'init' for x in scope_stores):
+                raise AnalysisError(f'{cons}: counter {ref} is never initialised in {A_CLS}')
+            for fname, kind, st in scope_stores:
+                if kind in ('bad',):
+                    raise AnalysisError(f'{cons}: unrecognised store to the counter `{pf.nsrc(st)}`')
+                if kind in ('init', 'noinc') and fname not in ('__init__', '__call__') and fname not in [h for h, _ in pa.inlined]:
+                    raise AnalysisError(f'{cons}: counter {ref} is reset in {A_CLS}.{fname}, which is not inlined into __call__')
+        stores = _counter_stores(pa.fn, ref)
+        if any(k == 'bad' for k, _ in stores):
+            raise AnalysisError(f'{cons}: unrecognised store to the counter {ref}')
+        incs = [pa.node_of(st) for k, st in stores if k == 'inc']
+        wnode = pa.node_of(wst)
+        for k, st in stores:
+            if k in ('init', 'noinc'):
+                rn = pa.node_of(st)
+                if pa.cfg.path_avoiding(wnode, lambda x, rn=rn: x is rn, lambda x: False) is not None:
+                    problems.append(f'the counter {ref} is ' + ('reset' if k == 'init' else 'not advanced') + f' by `{pf.nsrc(st)}` while the traversal is still handing out names: '
+                                    f'a later binding site re-draws a number that an enclosing site already used, and the inner let shadows the outer one')
+        is_iter = draw.what.endswith('()')
+        if is_iter:
+            ok_iter = '.' in ref and all(k == 'init' and isinstance(getattr(st, 'value', None), ast.Call) for _f, k, st in scope_stores) and scope_stores
+            if not ok_iter:
+                raise AnalysisError(f'{cons}: `next({ref})`: {ref} is not initialised exactly with itertools.count(..)')
+            incs = [pa.node_of(draw.node)] if draw.node is not None else [wnode]
+        elif '.' in ref and any(k == 'init' and isinstance(getattr(st, 'value', None), ast.Call) for _f, k, st in scope_stores):
+            raise AnalysisError(f'{cons}: {ref} is an iterator but is formatted into the name directly')
+        if not incs:
+            problems.append(f'the counter {ref} is never incremented in {A_CLS}.__call__: every lifted let gets the same name')
+        else:
+            full = chain + ch
+            read = pa.node_of(draw.node) if draw.node is not None else wnode
+            nodes = [pa.node_of(st) for st in full]
+            # between two executions of the write there is an execution of each definition on the chain ...
+            for a_, b_ in zip(nodes, nodes[1:]):
+                if a_ is b_:
+                    continue
+                if pa.cfg.path_avoiding(a_, lambda x, a_=a_: x is a_, lambda x, b_=b_: x is b_) is not None:
+                    problems.append(f'`{pf.nsrc(a_.ast)[:60]}` can run twice without `{pf.nsrc(b_.ast)[:60]}` running in between: the same name is registered for two lifted lets')
+                    break
+            else:
+                # ... and between two reads of the counter there is an increment
+                if not is_iter and pa.cfg.path_avoiding(read, lambda x: x is read, lambda x: any(x is i for i in incs)) is not None:
+                    problems.append(f'the counter {ref} can be read twice (`{pf.nsrc(read.ast)[:60]}`) without being incremented in between: two lifted lets get the same name')
+        if problems:
+            ctx.bad('R10', cons, problems[0] + (f' (+{len(problems) - 1} more)' if len(problems) > 1 else ''), m.path, line)
+        else:
+            ctx.ok('R10', cons, {'template': f'{prefix}<{ref}>', 'user_uid_prefix': uid_prefix, 'inlined': pa.inlined, 'tables': plumbing})
+    return plumbing
+
+
+KINDS = ('value', 'agg', 'scan')
+
+
+def _bind_depth_expr(ps: _Pass, e: ast.AST, at: ast.stmt) -> bool:
+    """Is `e` the bind depth of the node under consideration: a local assigned from `<frame>.bind_depth()`, or `<c>.depth` where
+    <c> is the bindings-stack frame selected by that depth (`c = bindings_stack[bind_depth]`; the frame's depth is its key)."""
+    if isinstance(e, ast.Name):
+        ds = ps.defs(e.id)
+        return bool(ds) and all(isinstance(d, ast.Call) and isinstance(d.func, ast.Attribute) and d.func.attr == 'bind_depth' for d in ds)
+    if isinstance(e, ast.Attribute) and e.attr == 'depth' and isinstance(e.value, ast.Name):
+        ds = ps.defs(e.value.id)
+        return bool(ds) and all(isinstance(d, ast.Subscript) and _bind_depth_expr(ps, d.slice, at) for d in ds)
+    return False
+
+
+def _canon(ps: _Pass, e: ast.AST, pol: bool, at: ast.stmt):
+    """Canonical literal: ('CMP', op) bind depth <op> min_value_binding_depth; ('SCAN', b); ('IN', table, key, b);
+    ('EFFECT', receiver, b); ('STREAM', receiver, b); ('TRUE',) for tautologies; ('?', text, b) otherwise."""
+    flip = {'<': '>', '>': '<', '<=': '>=', '>=': '<=', '==': '==', '!=': '!='}
+    neg = {'<': '>=', '>=': '<', '>': '<=', '<=': '>', '==': '!=', '!=': '=='}
+    names = {ast.Lt: '<', ast.LtE: '<=', ast.Gt: '>', ast.GtE: '>=', ast.Eq: '==', ast.NotEq: '!='}
+    if isinstance(e, ast.Compare) and len(e.ops) == 1:
+        l, r, op = e.left, e.comparators[0], e.ops[0]
+        lm = isinstance(l, ast.Attribute) and l.attr == 'min_value_binding_depth'
+        rm = isinstance(r, ast.Attribute) and r.attr == 'min_value_binding_depth'
+        if type(op) in names and ((rm and _bind_depth_expr(ps, l, at)) or (lm and _bind_depth_expr(ps, r, at))):
+            o = names[type(op)]
+            if lm:
+                o = flip[o]
+            return ('CMP', o if pol else neg[o])
+        if isinstance(l, ast.Attribute) and l.attr == 'min_binding_depth' and _bind_depth_expr(ps, r, at) and isinstance(op, ast.LtE) and pol:
+            return ('TRUE',)  # bind_depth() starts from min_binding_depth and only takes maxima
+        if isinstance(op, (ast.In, ast.NotIn)) and isinstance(l, ast.Call) and pf.dotted(l.func) == 'id' and len(l.args) == 1:
+            tb = r.attr if isinstance(r, ast.Attribute) else r.id if isinstance(r, ast.Name) else None
+            if tb is not None:
+                return ('IN', tb, pf.nsrc(l.args[0]), pol if isinstance(op, ast.In) else not pol)
+    if isinstance(e, ast.Attribute) and e.attr == 'scan_scope':
+        return ('SCAN', pol)
+    if isinstance(e, ast.Call) and isinstance(e.func, ast.Attribute) and e.func.attr == 'is_effectful' and not e.args:
+        return ('EFFECT', pf.nsrc(e.func.value), pol)
+    if isinstance(e, ast.Attribute) and e.attr == 'is_stream':
+        return ('STREAM', pf.nsrc(e.value), pol)
+    return ('?', pf.nsrc(e), pol)
+
+
+def _canon_lits(ps: _Pass, st: ast.stmt) -> List[Tuple]:
+    return [_canon(ps, e, pol, st) for e, pol in ps.lits(st)]
+
+
+REGION = {'value': frozenset({('=', False), ('=', True), ('>', False), ('>', True)}), 'agg': frozenset({('<', False)}), 'scan': frozenset({('<', True)})}
+
+
+def _region(lits: Sequence[Tuple]) -> FrozenSet[Tuple[str, bool]]:
+    """The cases (bind depth <,=,> min_value_binding_depth ; scan_scope) in which all comparison / scan literals hold."""
+    holds = {'<': {'<': True, '=': False, '>': False}, '<=': {'<': True, '=': True, '>': False}, '>': {'<': False, '=': False, '>': True},
+             '>=': {'<': False, '=': True, '>': True}, '==': {'<': False, '=': True, '>': False}, '!=': {'<': True, '=': False, '>': True}}
+    out = set()
+    for o in '<=>':
+        for sc in (False, True):
+            if all(holds[x[1]][o] for x in lits if x[0] == 'CMP') and all(x[1] == sc for x in lits if x[0] == 'SCAN'):
+                out.add((o, sc))
+    return frozenset(out)
+
+
+def _kind(lits: Sequence[Tuple]) -> Optional[str]:
+    """value / agg / scan when the path condition selects exactly that scope; 'odd:<cases>' when it compares the right quantities
+    but selects another set of cases; None when it does not constrain them."""
+    if not any(x[0] in ('CMP', 'SCAN') for x in lits):
+        return None
+    reg = _region(lits)
+    for k, r in REGION.items():
+        if reg == r:
+            return k
+    return 'odd:' + ', '.join(f'bind depth {o} min_value_binding_depth{" and scan_scope" if sc else " and not scan_scope"}' for o, sc in sorted(reg))
+
+
+def _odd(ctx: Ctx, ps: _Pass, k: Optional[str], st: ast.stmt) -> bool:
+    """Report a statement whose path condition selects a set of cases that is none of the three scopes."""
+    if k is None:
+        raise AnalysisError(f'{ps.key}: cannot classify the scope of `{pf.nsrc(st)}` from its path condition')
+    if k.startswith('odd:'):
+        ctx.bad('R13', f'{ps.key}::{pf.nsrc(st)[:70]}', f'`{pf.nsrc(st)}` runs exactly when [{k[4:] or "never"}], which is none of the three scopes the passes must agree on '
+                f'(value: bind depth >= min_value_binding_depth; agg: below it and not scan_scope; scan: below it and scan_scope): a node in the remaining case is recorded, '
+                f'looked up or emitted in the wrong scope (Let instead of AggLet or vice versa), or not recognised as shared', ps.orig.path, st.lineno)
+        return True
+    return False
+
+
+WHY_KIND = {
+    'value': 'a node whose bind depth is at or below the enclosing value scope is bound by a plain Let',
+    'agg': 'a node bound above the enclosing aggregation scope (scan_scope False) must be bound by an AggLet in the aggregation scope',
+    'scan': 'a node bound above the enclosing scan scope (scan_scope True) must be bound by an AggLet in the scan scope',
+}
+
+
+def _head_template(cls: ic.Cls) -> str:
+    """head_str as text with `{attr}` holes."""
+    r = cls.resolve_nonroot('head_str')
+    if r is None:
+        raise AnalysisError(f'{cls.key("head_str")}: not found')
+    rets = [n for n in pf.walk_shallow(r[1]) if isinstance(n, ast.Return) and n.value is not None]
+    if len(rets) != 1:
+        raise AnalysisError(f'{cls.key("head_str")}: unrecognised body')
+    tp = _template(rets[0].value)
+    if tp is None:
+        raise AnalysisError(f'{cls.key("head_str")}: unrecognised template')
+    out = ''
+    for x in tp:
+        if isinstance(x, str):
+            out += x
+            continue
+        while isinstance(x, ast.Call) and pf.dotted(x.func) in ('escape_id', 'str') and len(x.args) == 1:
+            x = x.args[0]
+        a = ic._self_attr(x)
+        if a is None:
+            raise AnalysisError(f'{cls.key("head_str")}: unrecognised hole `{pf.nsrc(x)}`')
+        out += '{' + a + '}'
+    return out
+
+
+def check_lift_decisions(ctx: Ctx, t: ic.Table, pa: _Pass, pp: _Pass, plumbing: Dict[str, str]) -> None:
+    """R13: marking, look-up (analysis pass) and emission (print pass) classify a node into value / agg / scan scope by the same
+    test, use the matching visited set and table of lifted lets, and emit the matching binder.
+    R14: only nodes that may be evaluated once-for-all are ever marked (not effectful, not streams); all tables are keyed by identity."""
+    m = pa.orig
+    tables = set(plumbing.values())
+    n_before = sum(1 for f in ctx.findings if f.rule == 'R13')
+    # ---- analysis pass: marks -------------------------------------------------------------------------------------------
+    marks: Dict[str, Set[str]] = {}
+    mark_stmts: List[Tuple[ast.stmt, ast.Call, List[Tuple]]] = []
+    for n in ast.walk(pa.fn):
+        if (isinstance(n, ast.Expr) and isinstance(n.value, ast.Call) and isinstance(n.value.func, ast.Attribute) and n.value.func.attr == 'add'
+                and isinstance(n.value.func.value, ast.Attribute) and n.value.func.value.attr.endswith('visited')):
+            lits = _canon_lits(pa, n)
+            k = _kind(lits)
+            mark_stmts.append((n, n.value, lits))
+            if _odd(ctx, pa, k, n):
+                continue
+            marks.setdefault(k, set()).add(n.value.func.value.attr)  # type: ignore[arg-type]
+    # ---- analysis pass: look-ups ------------------------------------------------------------------------------------------
+    looks: Dict[str, Set[Tuple[str, str]]] = {}
+    look_keys: Set[str] = set()
+    for n in ast.walk(pa.fn):
+        if isinstance(n, ast.Assign) and len(n.targets) == 1 and isinstance(n.targets[0], ast.Name) and isinstance(n.value, ast.Attribute) and n.value.attr in tables:
+            lits = _canon_lits(pa, n)
+            k = _kind(lits)
+            ins = [x for x in lits if x[0] == 'IN' and x[3]]
+            if len(ins) != 1:
+                raise AnalysisError(f'{pa.key}: `{pf.nsrc(n)}` is not guarded by exactly one membership test')
+            look_keys.add(ins[0][2])
+            if _odd(ctx, pa, k, n):
+                continue
+            looks.setdefault(k, set()).add((ins[0][1], n.value.attr))  # type: ignore[arg-type]
+    a_line = pa.fn.lineno
+    n_odd = sum(1 for f in ctx.findings if f.rule == 'R13') - n_before
+    for k in KINDS:
+        cons = f'{pa.key}::{k} scope'
+        if n_odd:
+            break  # already reported at the statement that selects the wrong cases
+        mk, lk = marks.get(k, set()), looks.get(k, set())
+        if not mk or not lk:
+            raise AnalysisError(f'{pa.key}: no {"marking" if not mk else "look-up"} statement recognised for the {k} scope')
+        if len(mk) != 1 or len(lk) != 1:
+            ctx.bad('R13', cons, f'nodes of the {k} scope are marked in {sorted(mk) or "no visited set"} and looked up in {sorted(lk) or "no (visited set, table) pair"}: '
+                    f'{WHY_KIND[k]}; without exactly one visited set and one table for this scope a second occurrence is not recognised or is bound in another scope',
+                    m.path, a_line)
+            continue
+        vset, (lset, ltab) = next(iter(mk)), next(iter(lk))
+        if vset != lset:
+            ctx.bad('R13', cons, f'a first occurrence in the {k} scope is recorded in `{vset}` but a later occurrence is looked up in `{lset}` (and lifted into `{ltab}`): '
+                    f'{WHY_KIND[k]} - the node is either never shared or shared with an occurrence of another scope (the AggLet lands in the wrong scope)', m.path, a_line)
+        else:
+            ctx.ok('R13', cons, {'visited': vset, 'table': ltab})
+    dup = [tb for tb in tables if sum(1 for k in KINDS for (_v, x) in looks.get(k, set()) if x == tb) > 1]
+    ctx.check(not dup, 'R13', f'{pa.key}::one table per scope', f'the table(s) {dup} receive the lifted lets of more than one scope: the print pass cannot tell a Let from an AggLet',
+              m.path, a_line)
+    # ---- R14: guard of the marks, identity keys -----------------------------------------------------------------------------------
+    for st, call, lits in mark_stmts:
+        arg = call.args[0] if len(call.args) == 1 else None
+        if not (isinstance(arg, ast.Call) and pf.dotted(arg.func) == 'id' and len(arg.args) == 1 and isinstance(arg.args[0], ast.Name)):
+            continue  # reported by the key check below
+        who = arg.args[0].id
+        cons = f'{pa.key}::{pf.nsrc(call.func.value).split(".")[-1]}.add guard'  # type: ignore[attr-defined]
+        eff = ('EFFECT', who, False) in lits
+        stream = ('STREAM', who, False) in lits
+        unknown = [x for x in lits if x[0] == '?']
+        if eff and stream:
+            ctx.ok('R14', cons, {'guard': 'not effectful, not a stream'})
+        elif unknown and not (eff or stream):
+            raise AnalysisError(f'{pa.key}: unrecognised guard {unknown} of `{pf.nsrc(st)}`')
+        else:
+            missing = ([] if eff else ['is_effectful()']) + ([] if stream else ['is_stream'])
+            ctx.bad('R14', cons, f'`{pf.nsrc(st)}` is reached without `{who}` having been tested for {" / ".join(missing)}: '
+                    + ('a shared effectful node (ConsoleLog, TableWrite, NDArrayWrite, Die ...) is let-bound and evaluated once instead of once per occurrence; '
+                       if not eff else '')
+                    + ('a shared stream-typed node is let-bound, but a stream can be consumed only once and cannot be the value of a Let; ' if not stream else '')
+                    + 'the rendered IR no longer means what the inlined IR means', m.path, st.lineno)
+        # the key is the node whose bind depth selected the frame
+        idx = call.func.value.value  # type: ignore[attr-defined]
+        if isinstance(idx, ast.Name):
+            idx = pf.resolve_expr(pa.fn, idx)
+        if isinstance(idx, ast.Subscript) and isinstance(idx.slice, ast.Name):
+            bd = pa.reaching(st, idx.slice.id)
+            nd = pa.reaching(st, who)
+            if bd is None or nd is None:
+                nds = [d for d in pa.defs(who) if isinstance(d, ast.expr)]
+                nd = nds[0] if len(nds) == 1 else None
+                if bd is None or nd is None:
+                    raise AnalysisError(f'{pa.key}: cannot resolve `{idx.slice.id}` / `{who}` at `{pf.nsrc(st)}`')
+            ok = (isinstance(bd, ast.Call) and isinstance(bd.func, ast.Attribute) and bd.func.attr == 'bind_depth' and isinstance(nd, ast.Attribute) and nd.attr == 'node'
+                  and pf.nsrc(nd.value) == pf.nsrc(bd.func.value))
+            ctx.check(ok, 'R14', f'{pa.key}::{pf.nsrc(call.func.value).split(".")[-1]}.add key',  # type: ignore[attr-defined]
+                      f'`{pf.nsrc(st)}` records `{who}` = `{pf.nsrc(nd)}` under the bind depth `{pf.nsrc(bd)}`: the recorded node must be the node of the frame whose bind depth '
+                      f'was computed, otherwise a different node is recognised as "seen before" at that depth', m.path, st.lineno)
+    for ps in (pa, pp):
+        vt = tables | set(plumbing) | {x for k in KINDS for x in marks.get(k, set())}
+        keys: Dict[str, int] = {}
+        for n in ast.walk(ps.fn):
+            key = None
+            if isinstance(n, ast.Subscript) and _table_attr(ps, n.value, vt):
+                key = n.slice
+            elif isinstance(n, ast.Compare) and len(n.ops) == 1 and isinstance(n.ops[0], (ast.In, ast.NotIn)) and _table_attr(ps, n.comparators[0], vt):
+                key = n.left
+            if key is not None:
+                keys[pf.nsrc(key)] = keys.get(pf.nsrc(key), 0) + 1
+        cons = f'{ps.key}::table keys'
+        if not keys:
+            raise AnalysisError(f'{cons}: no access to the tables of lifted lets found')
+        if len(keys) == 1:
+            ctx.ok('R14', cons, keys)
+        else:
+            major = max(keys, key=lambda x: keys[x])
+            ctx.bad('R14', cons, f'the tables of lifted lets / visited sets are read under `{major}` ({keys[major]} places) but also under {sorted(set(keys) - {major})}: the name (or the '
+                    f'"seen before" fact) of one node is applied to another node - a Ref to the wrong let, or a let that is referenced but never emitted', m.path, ps.fn.lineno)
+    if len(look_keys) == 1:
+        lk = next(iter(look_keys))
+        wkeys = {pf.nsrc(n.targets[0].slice) for n in ast.walk(pa.fn) if isinstance(n, ast.Assign) and isinstance(n.targets[0], ast.Subscript) and _table_attr(pa, n.targets[0].value, tables)}
+        ctx.check(wkeys == {f'id({lk})'}, 'R14', f'{pa.key}::lifted let key', f'a second occurrence of `{lk}` is recognised by id({lk}) but the name is registered under {sorted(wkeys)}: '
+                  f'the print pass looks the name up under the id of the node it is about to render and finds another node\'s name (or none)', m.path, pa.fn.lineno)
+    else:
+        raise AnalysisError(f'{pa.key}: look-ups use several key variables {sorted(look_keys)}')
+
+    # ---- print pass ---------------------------------------------------------------------------------------------------------------
+    ems = [e for e in _emissions(t, pp) if e.word != 'Ref']
+    label_var = None
+    label_kind: Dict[str, str] = {}
+    label_tab: Dict[str, str] = {}
+    for n in ast.walk(pp.fn):
+        if isinstance(n, ast.Assign) and len(n.targets) == 1 and isinstance(n.targets[0], ast.Name) and pf.const_str(n.value) is not None:
+            lits = _canon_lits(pp, n)
+            k = _kind(lits)
+            ins = [x for x in lits if x[0] == 'IN' and x[3] and x[1] in plumbing]
+            if k is None or len(ins) != 1:
+                continue
+            if _odd(ctx, pp, k, n):
+                continue
+            if label_var not in (None, n.targets[0].id):
+                raise AnalysisError(f'{pp.key}: several scope label variables')
+            label_var = n.targets[0].id
+            lab = pf.const_str(n.value)
+            if lab in label_kind and (label_kind[lab] != k or label_tab[lab] != ins[0][1]):
+                raise AnalysisError(f'{pp.key}: label {lab!r} assigned under two different conditions')
+            label_kind[lab] = k  # type: ignore[index]
+            label_tab[lab] = ins[0][1]  # type: ignore[index]
+    if label_var is None or len(label_kind) < 3:
+        raise AnalysisError(f'{pp.key}: scope labels not recognised ({label_kind})')
+    if sorted(label_kind.values()) != sorted(KINDS):
+        ctx.bad('R13', f'{pp.key}::scope classification', f'the print pass distinguishes the scopes {label_kind} (expected one label for each of value / agg / scan, decided by '
+                f'bind depth >= min_value_binding_depth and scan_scope exactly as in the analysis pass): a let registered by the analysis pass for the missing scope is '
+                f'referenced but never emitted, or emitted as the wrong kind of binder', m.path, pp.fn.lineno)
+        return
+
+    def labels_at(st: ast.stmt) -> Set[str]:
+        poss = set(label_kind)
+        for e, pol in pp.lits(st):
+            if (isinstance(e, ast.Compare) and len(e.ops) == 1 and isinstance(e.left, ast.Name) and e.left.id == label_var and isinstance(e.ops[0], (ast.Eq, ast.NotEq))
+                    and pf.const_str(e.comparators[0]) is not None):
+                eq = isinstance(e.ops[0], ast.Eq) == pol
+                lab = pf.const_str(e.comparators[0])
+                poss = {x for x in poss if (x == lab) == eq}
+        return poss
+
+    name_tab: Dict[str, Set[str]] = {}
+    vis_tab: Dict[str, Set[str]] = {}
+    for n in ast.walk(pp.fn):
+        if isinstance(n, ast.Assign) and len(n.targets) == 1 and isinstance(n.targets[0], ast.Name):
+            v = n.value
+            if isinstance(v, ast.Subscript) and isinstance(v.value, ast.Attribute) and v.value.attr in plumbing:
+                ls = labels_at(n)
+                if len(ls) != 1:
+                    raise AnalysisError(f'{pp.key}: `{pf.nsrc(n)}` is not under exactly one scope label')
+                name_tab.setdefault(next(iter(ls)), set()).add(v.value.attr)
+            elif isinstance(v, ast.Attribute) and v.attr.endswith('visited'):
+                ls = labels_at(n)
+                if len(ls) != 1:
+                    raise AnalysisError(f'{pp.key}: `{pf.nsrc(n)}` is not under exactly one scope label')
+                vis_tab.setdefault(next(iter(ls)), set()).add(v.attr)
+    em_by: Dict[str, List[_Emission]] = {}
+    for e in ems:
+        ls = labels_at(e.stmt)
+        if len(ls) != 1:
+            raise AnalysisError(f'{pp.key}: `{pf.nsrc(e.node)}` is not under exactly one scope label')
+        em_by.setdefault(next(iter(ls)), []).append(e)
+    want_head = {'Let': _head_template(t.get('Let')), 'AggLet': _head_template(t.get('AggLet'))}
+    for lab, k in sorted(label_kind.items(), key=lambda x: KINDS.index(x[1])):
+        cons = f'{pp.key}::{k} scope'
+        problems: List[str] = []
+        nt = name_tab.get(lab, set())
+        if nt != {label_tab[lab]}:
+            problems.append(f'a node found in `{label_tab[lab]}` takes its name from {sorted(nt)}: the Ref / binder carries another let\'s name (or a KeyError)')
+        elif len(looks.get(k, ())) == 1 and plumbing[label_tab[lab]] != next(iter(looks[k]))[1]:
+            problems.append(f'the print pass reads the {k}-scope names from `{label_tab[lab]}`, which is filled from the analysis pass\'s `{plumbing[label_tab[lab]]}`, but the analysis pass '
+                            f'registers {k}-scope lets in `{next(iter(looks[k]))[1]}`: lets are emitted in the wrong scope')
+        es = em_by.get(lab, [])
+        if len(es) != 1:
+            problems.append(f'{len(es)} binder templates are emitted for this scope')
+        else:
+            e = es[0]
+            want_cls = 'Let' if k == 'value' else 'AggLet'
+            text = ''.join(x if isinstance(x, str) else '{name}' for x in e.parts)
+            want = f'({want_cls} ' + want_head[want_cls].replace('{is_scan}', str(k == 'scan')) + ' '
+            if text != want:
+                problems.append(f'emits `{text}` for a lifted let of the {k} scope, expected `{want}` ({want_cls}.head_str; {WHY_KIND[k]})')
+        if len(vis_tab.get(lab, set())) != 1:
+            problems.append(f'uses the emitted-already sets {sorted(vis_tab.get(lab, set()))} for this scope (expected exactly one)')
+        if problems:
+            ctx.bad('R13', cons, problems[0] + (f' (+{len(problems) - 1} more)' if len(problems) > 1 else ''), m.path, (em_by.get(lab) or [ems[0]])[0].node.lineno)
+        else:
+            ctx.ok('R13', cons, {'label': lab, 'table': label_tab[lab], 'emits': ''.join(x if isinstance(x, str) else '{name}' for x in em_by[lab][0].parts)})
+    allv = [next(iter(v)) for v in vis_tab.values() if len(v) == 1]
+    ctx.check(len(set(allv)) == len(allv), 'R13', f'{pp.key}::one emitted-set per scope', f'two scopes share an emitted-already set {allv}: a node lifted in two scopes of the same '
+              f'binding site is emitted only once and the other Ref is unbound', m.path, pp.fn.lineno)
+
+
+
+# ---------------------------------------------------------------------------------------------------------------------------
+# R15: blocks (children no let may be lifted out of)
+# ---------------------------------------------------------------------------------------------------------------------------
+LAZY_CHILDREN = {
+    'If': (frozenset({1, 2}), 'only one of cnsq / altr is evaluated: a let lifted above the If evaluates a sub-term of the branch that is not taken (an out-of-bounds '
+                              'index or division raises although the inlined IR does not; a Recur shared by both branches leaves tail position and the loop is rejected)'),
+}
+
+
+def check_new_block(ctx: Ctx, t: ic.Table) -> None:
+    # (a) relational nodes: no value let crosses a Table / Matrix / BlockMatrix boundary
+    for root in ('TableIR', 'MatrixIR', 'BlockMatrixIR'):
+        rc = t.get(root)
+        cons = rc.key('renderable_new_block')
+        ctx.check(_returns_true(rc, 'renderable_new_block') is True, 'R15', cons,
+                  f'{root}.renderable_new_block must be True for every child: a value let lifted above a relational node is evaluated outside the per-row / per-entry '
+                  f'scope its variables (row, va, sa, g, ...) live in', rc.mod.path, rc.methods['renderable_new_block'].lineno if 'renderable_new_block' in rc.methods else rc.node.lineno)
+        for cls in t.ir_classes():
+            if cls.is_a(root):
+                r = cls.resolve('renderable_new_block')
+                if r is None or r[0].name != root:
+                    raise AnalysisError(f'{cls.key("renderable_new_block")}: relational class overrides renderable_new_block (not modelled)')
+    # (b) nodes that open an aggregation scope, (c) lazily evaluated children
+    for cls in t.ir_classes():
+        if not cls.is_a('IR'):
+            continue
+        opens = not bool(_returns_true(cls, 'uses_agg_capability'))
+        lazy = LAZY_CHILDREN.get(cls.name)
+        if cls not in _binder_classes(t) and lazy is None:
+            continue
+        atoms = _all_atoms(cls, ['renderable_new_block'])
+        for lay in ic.layouts(cls)[:1]:
+            verdict: Dict[str, Tuple[bool, bool, str]] = {}
+            for fl in _vals(atoms):
+                for p, label in (ic.renderable_positions(cls, lay) if ic.renderable_index_map(cls, lay) is not None else _positions(cls, lay, fl)):
+                    binds_cap = ic.CAP in ic.binder_keys(t, cls, 'bindings', p, fl, lay)
+                    must = (opens and binds_cap) or (lazy is not None and p[0] == 'c' and p[1] in lazy[0])
+                    if not must:
+                        continue
+                    nb = _bool_method(t, cls, 'renderable_new_block', p, fl, lay)
+                    old = verdict.get(label, (True, binds_cap, ''))
+                    verdict[label] = (old[0] and nb, binds_cap, label)
+            for label, (ok, cap, _l) in verdict.items():
+                cons = f'{cls.key("renderable_new_block")}::{label}'
+                d = cls.resolve('renderable_new_block')
+                if opens and cap:
+                    why = (f'{cls.name} opens an aggregation scope for child `{label}` (it binds agg_capability there and does not itself use an enclosing one): unless the child is a '
+                           f'new block, a sub-term of an aggregator argument without free variables (min_binding_depth inherited from above) is lifted into an AggLet above '
+                           f'{cls.name}, i.e. into an outer aggregation scope that may not exist')
+                else:
+                    why = lazy[1]  # type: ignore[index]
+                ctx.check(ok, 'R15', cons, f'{cls.name}.renderable_new_block is False for child `{label}`: {why}', d[0].mod.path if d else cls.mod.path, d[1].lineno if d else cls.node.lineno)
+
+
 def run(ctx: Ctx) -> None:
     ctx.explanation = ('Symbolic evaluation of every binder metadata method of the IR class table over all child positions x flag valuations, '
-                       'then sibling comparison (bound_variables / head_str / bindings / context switches / agg_capability / renderer passes).')
+                       'then sibling comparison (bound_variables / head_str / bindings / context switches / agg_capability / renderer passes); path '
+                       'evaluation of the free-variable properties and child contexts; dataflow / CFG analysis of the two renderer passes (name '
+                       'freshness, scope classification, guards, depths).')
     ctx.rule('R1', 'value IR: bound_variables == names bound by renderable_(agg_|scan_)bindings, and includes super().bound_variables', 20)
     ctx.rule('R2', 'every name bound for a child is rendered by head_str', 40)
     ctx.rule('R3', 'bound names are rendered through escape_id (frozen exceptions: uid-only names)', 40)
@@ -824,23 +2816,45 @@ def run(ctx: Ctx) -> None:
     ctx.rule('R5', 'the child positions a node binds names for are the positions the engine binds names for (Binds.scala childEnv*)', 35)
     ctx.rule('R6', 'agg/scan context switches and agg/scan bindings are mirror images under is_scan', 9)
     ctx.rule('R7', 'nodes that evaluate children in the agg/scan context reference agg_capability', 8)
-    ctx.rule('R8', 'renderer passes and BaseIR wrappers consume the metadata consistently', 12)
+    ctx.rule('R8', 'renderer passes and BaseIR wrappers consume the metadata consistently; binder depths are frame depths', 16)
     ctx.rule('R9', 'index remapping and direct overrides of the child-index API are compatible with renderable_child_context', 4)
+    ctx.rule('R10', 'names of lifted lets are drawn from one strictly increasing per-render counter under a reserved prefix', 1)
+    ctx.rule('R11', 'IR.free_vars/free_agg_vars/free_scan_vars: every non-cached path yields the union over all children (+ agg_capability when uses_agg_capability()); caches only hold that', 8)
+    ctx.rule('R12', 'free-variable equations are the adjoint of the child contexts (generic closures and classes with their own contexts); child contexts carry every binding kind and are persistent', 18)
+    ctx.rule('R13', 'marking, look-up and emission classify value / agg / scan scope identically and use matching tables and binders; lets are emitted in completion order', 9)
+    ctx.rule('R14', 'only non-effectful non-stream nodes are marked for lifting; each pass keys its tables by the node whose bind depth it computed', 9)
+    ctx.rule('R15', 'children that must be blocks are blocks: relational nodes, aggregation-scope openers, lazily evaluated branches', 9)
     ctx.assume('binder names at the frozen raw-rendered sites are Env.get_uid() identifiers (construction sites listed in RAW_RENDERED)')
     ctx.assume('the Scala IR parser reads binder names in the order head_str emits them (argument order is not compared)')
     t = ic.load_table()
     ctx.unit('files', len(ic.MODULES))
     ctx.unit('ir_classes', len(t.ir_classes()))
     ctx.unit('binder_classes', len(_binder_classes(t)))
-    check_bound_variables(ctx, t)
-    check_head(ctx, t)
-    check_binder_methods(ctx, t)
-    check_typing_position(ctx, t)
-    check_scala_positions(ctx, t)
-    check_context_switch(ctx, t)
-    check_capability(ctx, t)
-    check_wrappers(ctx, t)
-    check_renderer(ctx, t)
-    check_child_context(ctx, t)
+    # every group of rules runs even when an earlier one declines: a decline (exit 2) must not hide a violation another rule can establish
+    declined: List[AnalysisError] = []
+
+    def attempt(fn, *args):
+        try:
+            return fn(ctx, t, *args)
+        except AnalysisError as e:
+            declined.append(e)
+            return None
+
+    for chk in (check_bound_variables, check_head, check_binder_methods, check_typing_position, check_scala_positions, check_context_switch,
+                check_capability, check_wrappers, check_renderer, check_depths, check_child_context, check_free_props, check_free_equations, check_env_bind, check_new_block):
+        attempt(chk)
+    m = t.modules['renderer.py']
+    try:
+        pa, pp = _Pass(m, A_CLS), _Pass(m, P_CLS)
+    except AnalysisError as e:
+        declined.append(e)
+    else:
+        ctx.unit('renderer_helpers_inlined', len(pa.inlined) + len(pp.inlined))
+        plumbing = attempt(check_fresh_names, pa, pp)
+        if plumbing is not None:
+            attempt(check_lift_decisions, pa, pp, plumbing)
     if ctx.tier == 'thorough':
-        check_raw_sites(ctx, t)
+        attempt(check_raw_sites)
+        attempt(check_external_cache_writes)
+    if declined:
+        raise AnalysisError('; '.join(str(e) for e in declined[:3]) + (f' (+{len(declined) - 3} more)' if len(declined) > 3 else ''))
